@@ -12,2020 +12,2019 @@ Definition show_fres (r : fres) : string :=
   end.
 Definition check (rs : list rune) : string := digest (show_fres (format_res rs)).
 Definition full (rs : list rune) : string := show_fres (format_res rs).
-Eval vm_compute in ("<<<M4344>>>" ++ check (runes_of_ascii "options {
-    ArrayPrefixLenType = u16;
-    FixedStringPadFromLeft = true;
-    JavaPackage = ""com.example.msg"";
-    GoPackage = ""msg"";
-    GoModule = ""example.com/msg"";
+Eval vm_compute in ("<<<M3879>>>" ++ check (runes_of_ascii "packet f32a {
+    @calculatedFrom(""packet"")
+    @tag(00)
+    @leftPad('0')
+    rootA,
+    @tag(65535)
+    string roots @lengthOf(MetaDataX) `" ++ [233]%N ++ runes_of_ascii "`,
+    @rightPad()
+    zchar[10] matchKey @lengthOf(float),
+    @rightPad()
+    roots MetaDataX,
+    u128,// c
+    match len as BodyLength {
+        """ ++ [128512]%N ++ runes_of_ascii """ : float,
+        [
+            4294967296, 00, 0123456789, ""`tick`"", ""it's"",
+            ""\n"", 65535, 7
+        ] : calculatedFrom,
+        [""packet"", 007, ""\" ++ [233]%N ++ runes_of_ascii """] : _x,
+        [""" ++ [128512]%N ++ runes_of_ascii """, ""a\""b"", 0123456789] : _x,
+        65535 : As,
+        255 : stringy,
+    },
+    calculatedFrom {
+        char[] matchKey @calculatedFrom(""" ++ [128512]%N ++ runes_of_ascii """),
+        u32 u8x @lengthOf(i8i8),
+        f32a options1 `line1
+                line2`,
+        float64 rootA,
+        //	t
+        //	t
+    },
+    @tag(0)
+    @lengthOf(Z9_)
+    T Foo `" ++ [233]%N ++ runes_of_ascii "`,
+    match T as Packet {
+        3 : u8x,
+        4294967296 : matchKey,
+        """ ++ [233]%N ++ runes_of_ascii "t" ++ [233]%N ++ runes_of_ascii """ : Foo,
+        ""a\""b"" : repeatCount,
+        7 : stringy,
+    },
+    @leftPad('\x00')
+    repeat pack,
 }
 
-MetaData Meta {
-    u32 SeqNum `sequence number
-        more`,
-    char[8] Symbol `symbol
-        more`,
-    zchar[5] ZSym `z symbol
-        more`,
-    string Note,
-    Symbol AltSymbol `alias of symbol`,
-    f64 Price,
+packet x {
+    @lengthOf(falsey)
+    repeat int32 a1,
+    @leftPad()
+    repeat f32a,
+    match Foo as calculatedFrom {
+        ""x y"" : calculatedFrom,
+        7 : len,
+        ""abc"" : charz,
+    },
+    uint8x,
+    @lengthOf(o)
+    // " ++ [27880; 37322]%N ++ runes_of_ascii "
+    repeat string_ {
+        zchar[7] Packet @calculatedFrom(""x y""),
+        repeat string charz,
+        float64 _x @calculatedFrom(""1""),
+    },
+    crc,
+    char[65535] metadata @calculatedFrom(""\n"") `" ++ [28040; 24687; 31867; 22411]%N ++ runes_of_ascii "`,
+    repeat uint64 msg_type `{ , }`,
+    char[1] charz,
+    @rightPad('\x00')
+    repeat i32 o `crlf
+        line`,
 }
 
-packet Inner {
-    u8 a,
-    i16 b,
-    string c,
+MetaData i8i8 {
+    rootA packetx `doc`,
+    x As,
+}//
+
+root packet u128 {
 }
 
-packet Inner2 {
-    u8 a2,
-    char[3] c2,
+packet falsey {
+    u @lengthOf(i8i8),
+    @lengthOf(u)
+    f32 Header,
+    @calculatedFrom(""`tick`"")
+    stringy @calculatedFrom(""" ++ [233]%N ++ runes_of_ascii "t" ++ [233]%N ++ runes_of_ascii """) `two words`,
+    char[65535] string_ @lengthOf(lengthOf),
+    Pad u128,
+    Packet `
+        `,// `tick` ""quote"" 'q'
+    @calculatedFrom(""abc"")
+    char[00] roots `line1
+        line2`,
+    @tag(7)
+    char[] trueish @calculatedFrom(""\n""),
+    @calculatedFrom(""packet"")
+    @lengthOf(As)
+    char[3] charz @lengthOf(options1),
+    u32 _x @calculatedFrom(""a\\"") `u8 x,`,
+}")).
+Eval vm_compute in ("<<<M3713>>>" ++ check (runes_of_ascii "packet 
+T {@lengthOf(
+    Foo
+	) @tag(
+
+    10	)
+
+@lengthOf(
+rootA
+
+    )
+
+chars  `it's`,
+	repeat char
+    roots //	t
+
+, 
+@tag( 
+0
+)  match charz 
+as leftPad
+
+    { 
+0
+    : tag  ,
+	}, Z9_ // trailing space 
+u128,
+int32
+int
+
+@calculatedFrom(
+
+""\n""	)
+, @lengthOf(
+	int
+)
+    Z9_ 
+
+// " ++ [27880; 37322]%N ++ runes_of_ascii "
+  {
+
+    repeat
+char[]	calculatedFrom  `crlf
+line` ,zchar[	0
+
+]
+o
+@calculatedFrom(""\" ++ [233]%N ++ runes_of_ascii """) , 
+u8x
+    {
+    _x
+,  // @lengthOf(
+  zchar[ 3
+] stringy
+
+@lengthOf(
+
+    T
+)	//	t
+	, 
+// trailing space 
+	uint8
+	body  , char[]
+falsey
+// `tick` ""quote"" 'q'
+  // @lengthOf(
+    @calculatedFrom(
+
+    ""// no comment""
+    )  `" ++ [233]%N ++ runes_of_ascii "`
+    ,	/// triple
+      }  ,
+}
+    ,
+	@tag(
+
+    1)@calculatedFrom( ""a\\""  )
+
+    // c
+  @rightPad (
+'0'
+	) i32
+    tag 
+@calculatedFrom(
+""a\""b"" 
+)	`crlf
+line`	, match	BodyLength
+
+as  f32a 
+{	[ 3 , ""`tick`""
+
+    ,  ""`tick`""
+,
+
+    007
+    ,""1""
+, 
+65535 // " ++ [128512]%N ++ runes_of_ascii " emoji
+
+	,  //	t
+	1
+    ,
+	0	]	: Z9_  , 
+[  ""CRC32""	,
+    ""a\\"" ] :
+chars
+
+    ,  ""a\""b""  : roots, 1 : f32a
+	,	// " ++ [27880; 37322]%N ++ runes_of_ascii "
+  	}	,
+trueish { 
+//
+    	/// triple
+
+  zchar
+{ match
+Pad
+
+as
+tag
+{
+    [
+0123456789,00
+
+, 7	,""a	b"",	// @lengthOf(
+		""CRC32""
+    ]	:
+    options1
+	, 
+      // @lengthOf(
+    } ,
+    pack {zchar[
+
+    10]chars
+, }  ,
+
+u `crlf
+line`	,
+
+repeat// " ++ [27880; 37322]%N ++ runes_of_ascii "
+    int32 _x
+
+`two words`
+	,
+
+}  ,
+
+    }
+,	// trailing space 
+		falsey  As
+, } options {
+	falsey	// " ++ [128512]%N ++ runes_of_ascii " emoji
+    	= ""abc"" 
+;
+Foo =false
+
+    ;} root
+	packet
+    A
+{ @lengthOf(
+uint8x
+	)
+
+match u8x as
+	msg_type	{
+[ 
+007 ,00
+	] :
+    u128,  [
+    255
+
+    ,// a // b
+    	""{,}""
+
+, 10 
+	    // " ++ [128512]%N ++ runes_of_ascii " emoji
+// " ++ [27880; 37322]%N ++ runes_of_ascii "
+
+  ,
+""// no comment""
+
+,
+    """" 
+,
+
+""" ++ [128512]%N ++ runes_of_ascii """ ]
+	: T , 255:
+	string_,
+
+""`tick`""
+
+    :
+
+As},}
+MetaData chars	{
+	char[ 65535
+	] roots  ,
+	i64
+
+    u128
+,
+
+    char[
+42 
+] pack 	 // " ++ [128512]%N ++ runes_of_ascii " emoji
+    ,
+    } //x")).
+Eval vm_compute in ("<<<M4080>>>" ++ check (runes_of_ascii "packet Packet {
+    @leftPad(' ')
+    repeat As {
+        repeatCount @calculatedFrom(""" ++ [28040; 24687]%N ++ runes_of_ascii """),
+        repeat pack {
+            /// triple
+            x {
+                match As as uint8x {
+                    [
+                        ""1"", ""\" ++ [233]%N ++ runes_of_ascii """, 00, ""it's"", ""a\""b"",
+                        ""\" ++ [233]%N ++ runes_of_ascii """
+                    ] : pack,
+                    [
+                        ""a\""b"", """ ++ [233]%N ++ runes_of_ascii "t" ++ [233]%N ++ runes_of_ascii """, 65535, ""a	b"", ""`tick`"",
+                        ""\n""
+                    ] : As,
+                    0123456789 : float,
+                    /// triple
+                    ""a	b"" : x_y_z,
+                    [""abc""] : stringy,
+                    // trailing space 
+                },
+                f64 MetaDataX,
+                zchar[0123456789] charz,
+            },
+            crc {
+                char[] x_y_z `
+                `,
+                match Z9_ as i8i8 {
+                    00 : charz,
+                },
+            },
+            i8 _x,
+            repeat falsey {
+                // `tick` ""quote"" 'q'
+                char[65535] Packet @calculatedFrom(""x y"") `line1
+                line2`,
+            },
+        },
+        f32a MetaDataX `" ++ [233]%N ++ runes_of_ascii "`,
+        repeat matchKey {
+            int32 int `crlf
+            line`,
+        },
+    },
+    float {
+        string As `// not a comment`,
+        As,
+        stringy,
+    },
+    @tag(00)
+    Foo,
+    repeat int16 Z9_,
+    @lengthOf(u8x)
+    u8x {
+        repeat uint64 asx,
+        // packet A { u8 x, }
+        //
+        repeat int ``,
+        char[1] uint8x @calculatedFrom(""\" ++ [233]%N ++ runes_of_ascii """),
+    },
+    x,
+}")).
+Eval vm_compute in ("<<<M469>>>" ++ check (runes_of_ascii "root
+    packet Header { /// triple
+repeat// " ++ [128512]%N ++ runes_of_ascii " emoji
+int64 _x
+`crlf
+line`//x
+, int16 leftPad , @rightPad( ) uint64 Packet @calculatedFrom( ""abc"" ) `doc` , @rightPad
+    (
+    '0') uint8x
+{ u8 Logon
+    , repeat x_y_z	{	a1 Header `it's`,
+    char[0  ]
+    /// triple
+    pack
+// @lengthOf(
+// trailing space 
+@calculatedFrom(
+    ""a	b""	) `line1
+line2` ,
+o @lengthOf( Header
+    ) `tab	here`
+    ,
+} , rootA zchar ,u128 , } ,@lengthOf( // trailing space 
+string_ )
+    //	t
+    match Foo as calculatedFrom { 0123456789: chars ,007 : string_
+    ,[
+    ""\n"", 4294967296 ] :  leftPad ,""\n"" : u , }, f64 packetx `
+` // c
+,	}
+    packet o
+    {@rightPad// trailing space 
+(
+) // " ++ [128512]%N ++ runes_of_ascii " emoji
+repeat
+    chars `it's`
+// @lengthOf(
+// `tick` ""quote"" 'q'
+,
+    } MetaData
+A
+// trailing space 
+// c
+{ // c
+uint64 i64_ `" ++ [233]%N ++ runes_of_ascii "`,  } root packet	int
+    { @tag(
+10
+) //x
+repeat a1 body  , @lengthOf( options1// packet A { u8 x, }
+) falsey
+    //
+    { repeat zchar[ 0
+    ]
+    // c
+    i64_ ,repeat u
+{ char[42 ] u8x
+@calculatedFrom( ""a\""b"") ,char[ 255 ] lengthOf @lengthOf( body
+)
+    `u8 x,`	, },repeat
+    pack {
+    trueish body
+`u8 x,`,
+match Logon as charz { [ 7] : x_y_z """ ++ [233]%N ++ runes_of_ascii "t" ++ [233]%N ++ runes_of_ascii """ : int ,
+""abc"" : u ,
+    42 : // trailing space 
+metadata, 10 : leftPad , }
+    ,//x
+char[ 10
+]trueish `tab	here` ,} ,
+}, }
+// @lengthOf(
+// " ++ [27880; 37322]%N ++ runes_of_ascii "
+options
+    //x
+    { rootA = ""`tick`"" As
+    =
+7 ;}
+")).
+Eval vm_compute in ("<<<M1389>>>" ++ check (runes_of_ascii "options {
+	StringPrefixLenType = u16;
+	ArrayPrefixLenType = u16;
+}
+
+packet SampleBinary {
+    uint16 MsgType `" ++ [28040; 24687; 31867; 22411]%N ++ runes_of_ascii "`,
+    u16 BodyLenght @lengthOf(Body) `" ++ [28040; 24687; 20307; 38271; 24230]%N ++ runes_of_ascii "`,
+    match MsgType as Body {
+        1 : Logon,
+        2 : Logout,
+        3 : Heartbeat,
+        4 : RiskControlRequest,
+        5 : RiskControlResponse,
+    },
+        @calculatedFrom(""CRC32"")
+    u32 Ckecksum `" ++ [26657; 39564; 21644]%N ++ runes_of_ascii "`,
 }
 
 packet Logon {
-    u8 x,
-    string user,
-    repeat u16 codes,
+     @leftPad('0')
+    char[10] UserName `" ++ [29992; 25143; 21517]%N ++ runes_of_ascii "`,
+    string Password `" ++ [23494; 30721]%N ++ runes_of_ascii "`,
+    uint64 ClientId `" ++ [23458; 25143; 31471]%N ++ runes_of_ascii "ID`,
+    u16 HeartbeatInterval `" ++ [24515; 36339; 38388; 38548]%N ++ runes_of_ascii "`,
 }
 
 packet Logout {
-    u16 reason,
+      @rightPad('0')
+    char[10] UserName `" ++ [29992; 25143; 21517]%N ++ runes_of_ascii "`,
+    uint64 ClientId `" ++ [23458; 25143; 31471]%N ++ runes_of_ascii "ID`,
 }
 
-packet Empty {
+packet Heartbeat {
 }
 
-root packet Msg {
-    u8 su8,
-    uint8 luint8,
-    u16 su16,
-    uint16 luint16,
-    u32 su32,
-    uint32 luint32,
-    u64 su64,
-    uint64 luint64,
-    i8 si8,
-    int8 lint8,
-    i16 si16,
-    int16 lint16,
-    i32 si32,
-    int32 lint32,
-    i64 si64,
-    int64 lint64,
-    f32 sf32,
-    float32 lfloat32,
-    f64 sf64,
-    float64 lfloat64,
-    char[6] fsplain,
-    @leftPad('0')
-    char[4] fs0,
-    @rightPad('0')
-    char[5] fs1,
-    @leftPad(' ')
-    char[6] fs2,
-    @rightPad(' ')
-    char[7] fs3,
-    @leftPad('\x00')
-    char[8] fs4,
-    @rightPad('\x00')
-    char[9] fs5,
-    @leftPad()
-    char[10] fs6,
-    @rightPad()
-    char[11] fs7,
-    zchar[7] fz,
-    @leftPad('0')
-    zchar[3] fzl0,
-    string s1 `doc`,
-    char[] s2,
-    Inner,
-    Sub {
-        u8 q,
-        string w,
-        Deep {
-            u16 z,
-            repeat i32 zs,
-        },
-    },
-    repeat u8 ru8,
-    repeat u16 ru16,
-    repeat u32 ru32,
-    repeat u64 ru64,
-    repeat i8 ri8,
-    repeat i16 ri16,
-    repeat i32 ri32,
-    repeat i64 ri64,
-    repeat f32 rf32,
-    repeat f64 rf64,
-    repeat string rstr,
-    repeat char[] rstr2,
-    repeat char[3] rfs,
-    repeat zchar[3] rfz,
-    repeat Inner2,
-    repeat Grp {
-        u8 k,
-        char[2] v,
-    },
-    SeqNum,
-    SeqNum seq2,
-    repeat SeqNum seqs,
-    Symbol,
-    AltSymbol alt,
-    ZSym,
-    Note,
-    repeat Symbol syms,
-    Price px,
-    u16 MsgType,
-    u32 BodyLen @lengthOf(Body),
-    match MsgType as Body {
-        1 : Logon,
-        [2, 3] : Logout,
-        7 : Logon,
-        9 : Empty,
-    },
-    u32 Checksum @calculatedFrom(""CRC32""),
+packet RiskControlRequest {
+    string UniqueOrderId `" ++ [21807; 19968; 35746; 21333; 21495]%N ++ runes_of_ascii "`,
+    char[16] ClOrdID `" ++ [23458; 25143; 35746; 21333; 21495]%N ++ runes_of_ascii "`,
+    char[3] MarketID `" ++ [24066; 22330]%N ++ runes_of_ascii "id`,
+    char[12] SecurityID `" ++ [35777; 21048; 20195; 30721]%N ++ runes_of_ascii "`,
+    char Side `" ++ [20080; 21334; 26041; 21521]%N ++ runes_of_ascii "`,
+    char OrderType `" ++ [35746; 21333; 31867; 22411]%N ++ runes_of_ascii "`,
+    u64 Price `" ++ [20215; 26684]%N ++ runes_of_ascii "`,
+    u32 Qty `" ++ [25968; 37327]%N ++ runes_of_ascii "`,
+    repeat string ExtraInfo `" ++ [38468; 21152; 20449; 24687]%N ++ runes_of_ascii "`,
+    repeat SubOrder {
+    		char[16] ClOrdID `" ++ [23376; 35746; 21333; 21495]%N ++ runes_of_ascii "`,
+    		u64 Price `" ++ [23376; 35746; 21333; 20215; 26684]%N ++ runes_of_ascii "`,
+    		u32 Qty `" ++ [23376; 35746; 21333; 25968; 37327]%N ++ runes_of_ascii "`,
+    	},
+}
+
+packet RiskControlResponse {
+    string UniqueOrderId `" ++ [21807; 19968; 35746; 21333; 21495]%N ++ runes_of_ascii "`,
+    i32 Status `" ++ [29366; 24577]%N ++ runes_of_ascii "`,
+    string Msg `" ++ [32467; 26524; 20449; 24687]%N ++ runes_of_ascii "`,
+    repeat Detail,
+}
+
+packet Detail {
+    string RuleName `" ++ [35268; 21017; 21517; 31216]%N ++ runes_of_ascii "`,
+    u16 Code `" ++ [21407; 22240; 20195; 30721]%N ++ runes_of_ascii "`,
 }")).
-Eval vm_compute in ("<<<M390>>>" ++ check (runes_of_ascii "packet
-metadata
-    { zchar[ 10]i64_ `say ""hi""` , repeat // " ++ [27880; 37322]%N ++ runes_of_ascii "
-Header
-// a // b
-// " ++ [128512]%N ++ runes_of_ascii " emoji
-uint8x ,@lengthOf( falsey ) int8
-_x @calculatedFrom( ""x y"" )`{ , }` // c
-,	stringy
-metadata`a\` // " ++ [128512]%N ++ runes_of_ascii " emoji
-, // " ++ [128512]%N ++ runes_of_ascii " emoji
-@lengthOf(
-Packet)
-    i64_
-{match crc  as Header
-{[ 0 , 0123456789  ] : // c
-Foo
-    ,
-    ""abc""
-// trailing space 
-// @lengthOf(
-:pack , } ,match int as charz { 1
-    /// triple
-    : packetx , 7: MetaDataX	, // " ++ [128512]%N ++ runes_of_ascii " emoji
-7
-: a1 007  :zchar, ""CRC32""
-    :
-stringy , [ ""\" ++ [233]%N ++ runes_of_ascii """,""CRC32"" ] : i8i8	}
-//
-//x
-, pack
-    /// triple
-    `doc`
-, tag
-{ _x@calculatedFrom( ""CRC32""
-    )
-    `
-` ,
-repeat asx
-`{ , }` /// triple
-,i32 _x //x
-@calculatedFrom(
-""\n"")  `u8 x,`, }
-, }, f32a @lengthOf( chars // trailing space 
-) , string Packet
-    , @leftPad  (
-    ' ' ) @lengthOf(
-u8x ) // trailing space 
-a1// " ++ [128512]%N ++ runes_of_ascii " emoji
-@calculatedFrom(
-    ""x y"" ) `doc` ,
-options1 , body
-`{ , }` , } MetaData Foo{ uint8 Z9_ `{ , }` , } packet Header
-    { pack	{// trailing space 
-leftPad	{ u128 i64_ , zchar[ 7
-// @lengthOf(
-// `tick` ""quote"" 'q'
-] i64_ @calculatedFrom( ""packet"" ) // packet A { u8 x, }
-`line1
-line2` //x
-, //
-metadata Logon , char[10 // packet A { u8 x, }
-]
-asx @lengthOf( uint8x
-) `it's`
-    ,
-} /// triple
-, } ,@calculatedFrom( ""a\\"") Logon
-@lengthOf(
-    uint8x ) `
-` , int64 msg_type
-    , metadata
-_x
-// @lengthOf(
-/// triple
-, @leftPad  (	)
-    trueish { Header {
-//x
-// `tick` ""quote"" 'q'
-uint8x
-    { char[0123456789]	leftPad	@calculatedFrom(
-""" ++ [233]%N ++ runes_of_ascii "t" ++ [233]%N ++ runes_of_ascii """ )
-    `" ++ [28040; 24687; 31867; 22411]%N ++ runes_of_ascii "`, } ,// " ++ [128512]%N ++ runes_of_ascii " emoji
-char[ // a // b
-1
-    ]
-// c
-// packet A { u8 x, }
-asx @calculatedFrom(  ""it's"" ) , roots	, } , }	, zchar[
-    // " ++ [128512]%N ++ runes_of_ascii " emoji
-    255 ]	Packet , // `tick` ""quote"" 'q'
-repeat i8i8 , repeat
-float64 u8x, @calculatedFrom(""" ++ [233]%N ++ runes_of_ascii "t" ++ [233]%N ++ runes_of_ascii """)
-asx @calculatedFrom( ""a\""b"" ),
-}  MetaData
-    /// triple
-    roots // packet A { u8 x, }
-{}")).
-Eval vm_compute in ("<<<M897>>>" ++ check (runes_of_ascii "packet zchar
-    /// triple
-    {
-match calculatedFrom as
-repeatCount {	[ ""{,}""]
-    : zchar , 00 :
-Pad
-    , 0 : pack	, }, // @lengthOf(
-f64 o`" ++ [28040; 24687; 31867; 22411]%N ++ runes_of_ascii "`,int32 f32a
-    @lengthOf( body ) //
-`
-`
-    ,  char[ 3 ] chars //	t
-`crlf
-line`
-    , }
-// @lengthOf(
-// packet A { u8 x, }
-MetaData metadata {
-string int
-    ,
-    len lengthOf , } root
-packet	A {
-@tag(0123456789 ) zchar[
-    0123456789
-    ] BodyLength // " ++ [27880; 37322]%N ++ runes_of_ascii "
-, @leftPad( '0' ) @rightPad ( ' '//
-) zchar[0123456789
-]tag `it's` , @tag(
-    007
-)// trailing space 
-@tag(
-    7
-) falsey	@calculatedFrom(
-    ""\" ++ [233]%N ++ runes_of_ascii """//
-), @calculatedFrom(""{,}"" )
-repeat Packet , @lengthOf(u
-    )@calculatedFrom(
-""a\""b""
-// a // b
-// `tick` ""quote"" 'q'
-) @lengthOf(lengthOf )char[]
-uint8x,@leftPad ( '\x00' )// trailing space 
-repeat T { i8i8 a1 ,
-    char[	65535] chars
-    `u8 x,`,
-    Pad , }
-,
-    @lengthOf( o ) u8 x , @calculatedFrom( // @lengthOf(
-""a	b"" )
-lengthOf//
-`// not a comment`
-, A  {  repeat calculatedFrom
-matchKey
-,
-options1 @calculatedFrom( ""a	b""	), // trailing space 
-repeat	u	`line1
-line2` , } ,} packet i8i8
-{} packet pack { zchar[ 0123456789] leftPad`
-`	,@rightPad (
-    '\x00'
-    )
-repeat int
-`" ++ [28040; 24687; 31867; 22411]%N ++ runes_of_ascii "`  ,match Packet as
-BodyLength// @lengthOf(
-{[
-00 // a // b
-, 7 ] //x
-: falsey }	,	@tag(00)
-repeat zchar[1 ] len // a // b
-`u8 x,` , @leftPad(  ) rootA
-//	t
-//	t
-@lengthOf(  len
-    ) ,
-    @tag(
-    42 ) // `tick` ""quote"" 'q'
-@lengthOf( i64_ ) repeat	len
-{ x { Logon{
-options1 Logon,
-    }
-, stringy  { string body @lengthOf(tag ) , }
-, falsey falsey
-, } //x
-, MetaDataX
-roots
-`// not a comment` ,} ,}")).
-Eval vm_compute in ("<<<M606>>>" ++ check (runes_of_ascii "packet i8i8 { @leftPad
-( ) u body `
-`
-    , repeat char[] Z9_  ,	repeat char[1	]	int ,
-roots {  _x
-// a // b
-//
-@calculatedFrom(""\n"" ) ,
-int //x
-{ float
-    @lengthOf(packetx )  ,} ,	int8 falsey
-`a\`, uint16  x_y_z@lengthOf(u128 )
-`two words`,} , @tag( 007 ) matchKey
-{ _x
-    , } , @leftPad ( )@lengthOf( //	t
-chars
-) i64_ @calculatedFrom(""`tick`"" )
-    `" ++ [233]%N ++ runes_of_ascii "`, } packet asx {
-    i32
-rootA @calculatedFrom( ""a\""b"" )`{ , }` , } packet f32a {
-    @leftPad
-(
-)
-// a // b
-//	t
-@calculatedFrom( ""// no comment"" ) repeat zchar[ 007 ] string_ `// not a comment` , match //	t
-Header as pack { [
-""// no comment"", ""a\""b"" ]
-: x,
+Eval vm_compute in ("<<<M4146>>>" ++ check (runes_of_ascii "packet leftPad {
     // packet A { u8 x, }
-    [ ""abc"" , //	t
-""\n""
-,""" ++ [233]%N ++ runes_of_ascii "t" ++ [233]%N ++ runes_of_ascii """ ,
-00  , 1	, 42
-] : pack// c
-,	[ 255 , ""a	b""
-    ] : i64_, }
-, options1 roots , int16
-o , @rightPad
-( ' ')char[] tag
-`// not a comment`	, }
-packet roots { uint64 stringy @calculatedFrom( ""1"" ) `two words` ,
-    u8x @calculatedFrom( // " ++ [128512]%N ++ runes_of_ascii " emoji
-""1"" ) `tab	here`, repeat
-    o
-{ charz {match metadata as charz { ""a\""b"": u,[10, ""packet"",
-""// no comment"" ,	7,  1 ,
-    42 ] : lengthOf , ""abc""
-:Packet """ ++ [233]%N ++ runes_of_ascii "t" ++ [233]%N ++ runes_of_ascii """ : crc
-    ,1
-:
-x
-, //	t
-[ """ ++ [28040; 24687]%N ++ runes_of_ascii """
-,""// no comment"" ,
-1 , 0123456789,""\n"" // trailing space 
-,
-    ""1"" ,""" ++ [233]%N ++ runes_of_ascii "t" ++ [233]%N ++ runes_of_ascii """ ] :
-    //x
-    u } , repeat float32
-    As ,// trailing space 
-} ,}
-    //
-    ,
-    //x
-    repeat	char[ 1 //x
-]  x_y_z`line1
-line2`
-    /// triple
-    ,
-// trailing space 
-//x
-}
-")).
-Eval vm_compute in ("<<<M4099>>>" ++ check (runes_of_ascii "packet
-
-o 
-// packet A { u8 x, }
-	{ @tag(42 )	@tag( 7)@rightPad(
-' '
-    )
-match	i8i8 
-as rootA{ // trailing space 
-	  [ 
-""1"",  1] :
-
-crc ,	}	,
-	i16
-
-    u8x  /// triple
-    @calculatedFrom( 
-""\" ++ [233]%N ++ runes_of_ascii """ )	,
-    pack
-@calculatedFrom(
-
-""a	b"" ) 
-,repeat	f32 calculatedFrom, zchar[
-    00
-
-]calculatedFrom 
-,
-	u8 trueish
-    `doc`,zchar[
-	0123456789
-
-    ] int
-@calculatedFrom(
-
-    ""packet""
-)	//x
-    ,	} options	{ 
-packetx = 	 //
-
-  ""CRC32"" 
-;}root
-packet	matchKey  {match Header
-	as 
-T 
-{
-	[	""abc""
-	, 
-""" ++ [233]%N ++ runes_of_ascii "t" ++ [233]%N ++ runes_of_ascii """  ]  :	f32a  00: calculatedFrom,00: _x }
-, char[]  pack
-
-    `{ , }`
-, u32
-BodyLength,
-    @leftPad
-(	)@lengthOf(
-o
-)
-@lengthOf(	MetaDataX  ) rootA  {
-    match
-
-int as Logon
-
-{
-
-    [ 3 ]:
-    f32a
-
-,
-    }
-	, zchar 	 //x
-@lengthOf(
-
-a1 
-)	, } ,	// packet A { u8 x, }
-      @calculatedFrom(
-
-""{,}""  // " ++ [128512]%N ++ runes_of_ascii " emoji
-    )
-    repeat BodyLength
-
-{ match Pad
-
-    // @lengthOf(
-	//x
-  as
-charz
-    {
-
-    ""x y""
-: lengthOf
-    ,}
-
-    ,	repeat 
-Foo
-
-    {
-
-    zchar[
-    0 
-]
-Header `" ++ [28040; 24687; 31867; 22411]%N ++ runes_of_ascii "`,
-}  , char[
-	7 	 // " ++ [128512]%N ++ runes_of_ascii " emoji
-]
-    packetx
-    `// not a comment` ,
-
-    a1@calculatedFrom(
-
-""1"")
-
-,	}, 
-@leftPad
-( )
-
-    zchar[	// c
-	65535	]
-u128  `say ""hi""` ,
-} root// " ++ [128512]%N ++ runes_of_ascii " emoji
-  packet
-	int
-{@leftPad
-
-(
-'0') repeat
-
-char
-Packet ,
-}")).
-Eval vm_compute in ("<<<M4458>>>" ++ check (runes_of_ascii "options {
-    x_y_z = """ ++ [128512]%N ++ runes_of_ascii """;
-    BodyLength = 0
-    a1 = ""a\\"";
-    trueish = ""{,}"";
-}
-
-packet crc {
-    @calculatedFrom(""CRC32"")
-    char[] u8x @lengthOf(lengthOf) `line1
-        line2`,
-    Z9_ int,
-    repeat float {
-        char[00] i64_ ``,// c
-    },
-    body @lengthOf(stringy) `// not a comment`,
-}
-
-MetaData u128 {
-    char charz,
-    float64 msg_type `tab	here`,
-    Logon stringy `// not a comment`,
-    u64 lengthOf,
-    chars u8x,
-    string_ crc,
-}
-
-root packet zchar {
-    @calculatedFrom(""" ++ [28040; 24687]%N ++ runes_of_ascii """)
+    @leftPad(' ')
+    repeat x `" ++ [233]%N ++ runes_of_ascii "`,
+    repeat pack,
+    // a // b
+    // a // b
+    uint32 A,// @lengthOf(
     @tag(10)
-    float32 len,
-}
-
-packet calculatedFrom {
-    repeat int8 zchar,
-    @lengthOf(asx)
-    lengthOf @lengthOf(u),
-    Header @lengthOf(rootA) `it's`,
-    @tag(65535)
-    match u8x as Header {
-        """ ++ [233]%N ++ runes_of_ascii "t" ++ [233]%N ++ runes_of_ascii """ : matchKey,
-        """ ++ [28040; 24687]%N ++ runes_of_ascii """ : x_y_z,
-        0 : trueish,
-        [
-            3, 7, """", """ ++ [128512]%N ++ runes_of_ascii """, """ ++ [28040; 24687]%N ++ runes_of_ascii """,
-            ""`tick`"", """"
-        ] : _x,
-    },
-    @leftPad(' ')
-    string_ falsey `say ""hi""`,
-    @leftPad(' ')
-    @rightPad('0')
     @leftPad()
-    match roots as a1 {
-        ""packet"" : T,
-    },
-    @calculatedFrom(""`tick`"")
-    @calculatedFrom(""`tick`"")
-    @calculatedFrom(""\" ++ [233]%N ++ runes_of_ascii """)
-    // a // b
-    zchar[0] A,
-    // " ++ [27880; 37322]%N ++ runes_of_ascii "
-    //
-    zchar[0123456789] x,
-}")).
-Eval vm_compute in ("<<<M414>>>" ++ check (runes_of_ascii "packet Packet
-{ Logon @lengthOf(chars ) , @lengthOf(  stringy
-    // c
-    ) int { // a // b
-char[ 1 ]
-    rootA,
-    repeat repeatCount `it's`
-    , i8 calculatedFrom
-    ,	} ,
-    _x
-u128,
-    //	t
-    i16 uint8x @lengthOf( a1 )	, a1@calculatedFrom( """ ++ [233]%N ++ runes_of_ascii "t" ++ [233]%N ++ runes_of_ascii """ ) , @lengthOf(
-x
-// `tick` ""quote"" 'q'
-// packet A { u8 x, }
-)	repeat
-    x_y_z{
-int32 crc @calculatedFrom( ""packet"" ), repeat string Z9_
-    , float64 len ,} , repeat
-options1`" ++ [28040; 24687; 31867; 22411]%N ++ runes_of_ascii "`
-,
-// a // b
-// " ++ [128512]%N ++ runes_of_ascii " emoji
-@leftPad  (' ' ) string // @lengthOf(
-msg_type @calculatedFrom(
-    ""a	b"" ) , // trailing space 
-repeat uint8
-trueish`line1
-line2` , } options // `tick` ""quote"" 'q'
-{
-    body	= ""\" ++ [233]%N ++ runes_of_ascii """ } packet pack// @lengthOf(
-{ /// triple
-@lengthOf(	matchKey )char[3 ] a1
-    ,
-@leftPad
-( ) @calculatedFrom( ""it's""
-) repeat f32a { zchar[ 00 ]
-lengthOf ,
-    stringy u8x ,
-As// trailing space 
-{  A//x
-@calculatedFrom(	""abc"" ), match
-u8x as	crc	{
-65535:
-trueish ,
-""a	b"" :
-    matchKey
-    // " ++ [128512]%N ++ runes_of_ascii " emoji
-    } , }
-, trueish // a // b
-@calculatedFrom( /// triple
-""\n"" // trailing space 
-) `say ""hi""`
-    , } , }
-packet stringy {char[ 4294967296 ]
-u8x
-, }
-")).
-Eval vm_compute in ("<<<M953>>>" ++ check (runes_of_ascii "  packet leftPad { char[4294967296
-]Pad , } packet Z9_ {repeat int,i64_ @lengthOf(float  ) , repeat leftPad{
-    string
-    _x , char[ 65535 ] x @calculatedFrom( ""it's"" ) `crlf
-line`,
-    },	@calculatedFrom( """ ++ [28040; 24687]%N ++ runes_of_ascii """ ) i32 tag/// triple
-, string
-    body
-@lengthOf( body ) `` //
-, @tag( 4294967296  )uint16 Logon @lengthOf(
-// packet A { u8 x, }
-// packet A { u8 x, }
-leftPad ) // a // b
-`` ,
-    } root packet repeatCount { } root
-packet options1
-    {@lengthOf(
-Z9_ ) @calculatedFrom( ""// no comment"")@calculatedFrom( ""1"" )  zchar // trailing space 
-{
-u8 repeatCount @calculatedFrom(""it's"" ) ,Packet @lengthOf( // @lengthOf(
-_x)
-    //
-    , } , @calculatedFrom( ""// no comment"") repeat	A{ int32 crc @calculatedFrom( ""// no comment"" ) `{ , }`,
-    //x
-    repeat u64 //x
-packetx `// not a comment`, } , i16
-    packetx  @calculatedFrom(	""abc"" )	`" ++ [28040; 24687; 31867; 22411]%N ++ runes_of_ascii "` ,
-    // packet A { u8 x, }
-    u16 Foo  @calculatedFrom( ""CRC32"" ), //
-} options { Header
-//	t
-// c
-='\x00'
-    ;// " ++ [27880; 37322]%N ++ runes_of_ascii "
-MetaDataX // @lengthOf(
-= 007; lengthOf = false; As = '\x00' } /// triple")).
-Eval vm_compute in ("<<<M253>>>" ++ check (runes_of_ascii "options{
-} packet matchKey { repeat
-int32 packetx, zchar[
-    10
-    //x
-    ] Packet
-    ,@lengthOf(string_
-) @tag( 007 ) @tag( 255 )// @lengthOf(
-Z9_ @calculatedFrom( """ ++ [28040; 24687]%N ++ runes_of_ascii """ ) ,
-@lengthOf(
-// `tick` ""quote"" 'q'
-// `tick` ""quote"" 'q'
-asx
-) @calculatedFrom(
-    // trailing space 
-    ""CRC32"" )
-string
-_x,
-    @calculatedFrom( """"
-    ) @lengthOf(
-trueish)x , @leftPad (
-)
-// `tick` ""quote"" 'q'
-/// triple
-zchar[ 4294967296 ]
-    float , @lengthOf(
-    // trailing space 
-    u128
-    )//	t
-Logon{repeat char[]x `u8 x,`, // packet A { u8 x, }
-} , @tag(
-1) f64 Z9_ ,
-u32 i64_
-`crlf
-line`  , @rightPad
-// `tick` ""quote"" 'q'
-// @lengthOf(
-( '\x00'	) @leftPad (	) repeat float32
-uint8x , }
-root packet
-u128
-    // `tick` ""quote"" 'q'
-    { i32
-    charz //	t
-@lengthOf( crc
-) `u8 x,`  ,// a // b
-@tag(
-65535 // " ++ [128512]%N ++ runes_of_ascii " emoji
-)// trailing space 
-@lengthOf( f32a ) repeat// " ++ [27880; 37322]%N ++ runes_of_ascii "
-Logon
-`{ , }`
-    , @rightPad (
-    ' ' ) @tag(65535
-)
-    repeat trueish , i32
-lengthOf
-    // `tick` ""quote"" 'q'
-    , }")).
-Eval vm_compute in ("<<<M1232>>>" ++ check (runes_of_ascii "options {
-    i64_ =
-// c
-// trailing space 
-""x y"";
-    chars
-// a // b
-//	t
-=
-    65535 metadata= i32; // trailing space 
-} root  packet
-chars { @lengthOf( /// triple
-chars
-    // " ++ [128512]%N ++ runes_of_ascii " emoji
-    ) repeat  Logon
-// " ++ [128512]%N ++ runes_of_ascii " emoji
-//	t
-{ string len @lengthOf(
-    crc ) //x
-,u128 @lengthOf( x )
-, } , }
-    packet chars
-{ @lengthOf(charz)@calculatedFrom( """ ++ [233]%N ++ runes_of_ascii "t" ++ [233]%N ++ runes_of_ascii """  )
-@calculatedFrom( """ ++ [128512]%N ++ runes_of_ascii """ )repeat
-    // " ++ [128512]%N ++ runes_of_ascii " emoji
-    repeatCount
-    Packet `u8 x,`,match
-rootA as
-    /// triple
-    falsey {
-    ""{,}""
-:
-As ,
-00
-: // " ++ [128512]%N ++ runes_of_ascii " emoji
-lengthOf ,
-""\n"" : u8x, """ ++ [233]%N ++ runes_of_ascii "t" ++ [233]%N ++ runes_of_ascii """  :T 3:
-    /// triple
-    calculatedFrom ,}, @leftPad ( )@calculatedFrom(
-    ""it's"" )	repeat crc
-    stringy`
-` ,@lengthOf(// `tick` ""quote"" 'q'
-metadata ) repeat falsey{ char[]
-Foo `a\` , match leftPad //	t
-as  BodyLength {
-""CRC32"": body , ""1"": x
-,""a\\"":	calculatedFrom,
-[
-    // @lengthOf(
-    1
-,00]
-:
-float }
-, repeat
-    char calculatedFrom , Foo { u64  Header `
-` ,}
-, } , }
-")).
-Eval vm_compute in ("<<<M1214>>>" ++ check (runes_of_ascii "packet float
-{ @calculatedFrom(
-""a\\""
-    ) char[
-00 ]zchar `line1
-line2` ,
-//	t
-// `tick` ""quote"" 'q'
-@lengthOf(
-calculatedFrom )
-    match chars as repeatCount // a // b
-{ // packet A { u8 x, }
-""CRC32"" : // packet A { u8 x, }
-f32a
-, }
-    , // packet A { u8 x, }
-} root
-    packet BodyLength {@rightPad ( '\x00' )u32 Header@lengthOf( A
-) , @leftPad
-( '0' // c
-)char[ 1 ] metadata@calculatedFrom(
-    ""x y""	) , repeat f32a {char[] _x @lengthOf( body ) `line1
-line2`, calculatedFrom
-{
-string msg_type,char[
-    0123456789	] int@lengthOf(
-    int )
-    ``	, } , } , trueish ,
-//x
-// `tick` ""quote"" 'q'
-char[] f32a ,
-    o Pad  , crc @lengthOf(
-    chars	)`" ++ [28040; 24687; 31867; 22411]%N ++ runes_of_ascii "` //
-,	@calculatedFrom(
-""\n""
-) // packet A { u8 x, }
-@lengthOf( leftPad ) BodyLength { repeat Logon
-    {
-lengthOf
-@lengthOf( trueish  ) `// not a comment`,} ,
-    }, }MetaData matchKey{
-uint64
-BodyLength , }
-")).
-Eval vm_compute in ("<<<M975>>>" ++ check (runes_of_ascii "
-root packet _x{@lengthOf(
-    //
-    options1 ) charz @lengthOf( Foo
-)	,// packet A { u8 x, }
-} packet metadata
-    { }
-    packet
-crc  { stringy@calculatedFrom(  ""packet"" )
-`// not a comment` , @tag(42 )repeat
-leftPad	{body@calculatedFrom( ""a\""b"" ) `two words`, } ,@tag( 1	) repeat uint16 packetx `a\` // trailing space 
-,repeat zchar[ 00]matchKey
-/// triple
-//x
-``
-,@calculatedFrom(	""`tick`"" )//
-@calculatedFrom( ""1""
-) char[ 00]
-u128 @lengthOf(
-    a1 ) , @lengthOf( lengthOf)@rightPad
-    (
-    '0'
-) @lengthOf(u128) rootA, } options
-    { } packet u128 { @tag(
-    // `tick` ""quote"" 'q'
-    3 )
-    @tag(
-    // packet A { u8 x, }
-    255 /// triple
-) @lengthOf(
-_x )	char crc
-    `// not a comment`
-// " ++ [128512]%N ++ runes_of_ascii " emoji
-//	t
-,repeat matchKey
-    repeatCount , repeat
-    T
-    `a\`
-,	@tag( 00 ) repeat rootA`tab	here`, } //	t")).
-Eval vm_compute in ("<<<M383>>>" ++ check (runes_of_ascii "packet repeatCount{
-    @tag(1
-) @leftPad
-(' ')	@leftPad
-    (
-    // c
-    '\x00'
-    ) int16
-trueish
-@lengthOf( len) `// not a comment` ,@calculatedFrom(	""it's"")
-f64 trueish
-@lengthOf( pack ), i64
-/// triple
-//x
-int
-    `u8 x,`,  int16 Packet, repeat trueish{ char[ 65535 ] int @lengthOf( Foo ) `crlf
-line`
-    , },	match chars
-as u128 { 0123456789 :
-uint8x ,	""1""
-    : A
-    // `tick` ""quote"" 'q'
-    , ""packet""	:
-    matchKey
-,0
-: crc ,""abc"" :
-T ,} ,
-@rightPad (// " ++ [27880; 37322]%N ++ runes_of_ascii "
-) match
-//	t
-//x
-a1 as
-    u128 {3
-//
-// @lengthOf(
-:	lengthOf	, ""a\\"": trueish
-007 :
-rootA }
-    ,@leftPad ( ' '
-) string_ `tab	here`
-    , packetx
-    @lengthOf( Header ) , @tag(255	) @tag( 42 ) char[]packetx, // `tick` ""quote"" 'q'
-}
-    options { rootA // a // b
-=
-// c
-//	t
-' ' x_y_z = int8
-}")).
-Eval vm_compute in ("<<<M54>>>" ++ check (runes_of_ascii "root packet calculatedFrom
-{ /// triple
-@calculatedFrom( // packet A { u8 x, }
-""{,}"" ) match asx
-as i8i8 { ""CRC32"" :f32a	,
-    ""// no comment""	:Packet
-    ,// trailing space 
-}
-,
-    repeat zchar[ 7 ] len , //
-match	options1// c
-as string_	{""" ++ [128512]%N ++ runes_of_ascii """ : metadata ,	[""\n""
-// `tick` ""quote"" 'q'
-//
-,
-    ""CRC32"" , ""a\""b""]
-:
-// " ++ [128512]%N ++ runes_of_ascii " emoji
-// " ++ [128512]%N ++ runes_of_ascii " emoji
-x_y_z // " ++ [27880; 37322]%N ++ runes_of_ascii "
-, 42
-: string_	},@lengthOf(
-msg_type) string Pad
-// trailing space 
-// @lengthOf(
-`tab	here` ,
-f32a
-, match  Logon as stringy { 007
-    :
-    metadata	, [ 255 , 10 ] : matchKey, [
-10 ,""1"",	""`tick`"" , 0]:roots , 255
-// @lengthOf(
-// c
-: o,	[ 1 ]
-: msg_type  , 0123456789
-: falsey	} , } root packet
-crc { }
-    options
-    { falsey =
-false ;len =
-""\" ++ [233]%N ++ runes_of_ascii """// " ++ [27880; 37322]%N ++ runes_of_ascii "
-;A
-=
-""a	b""	lengthOf	= ""1""}
-")).
-Eval vm_compute in ("<<<M3699>>>" ++ check (runes_of_ascii "
-
-  packet
-
-msg_type
-	{
-
-    repeat
-
-i64  MetaDataX	`line1
-line2`// trailing space 
-    ,
-repeat
-char[]	//
-	u128
-
-    ,
-
-    @tag(	42 )// @lengthOf(
-      @lengthOf(	u	) 
-@lengthOf(
-
-    body)repeat
-zchar[	255
-        //
-] 
-  // `tick` ""quote"" 'q'
-	// trailing space 
-
-As,calculatedFrom
-//x
-  f32a
-	// trailing space 
-    ,
-	} options
-	{ 	 // @lengthOf(
-  	x =3
-	msg_type
-
-=
-""`tick`""	falsey
-=
-
-""CRC32""	;
-// trailing space 
-	body 
-=
-char[  00	]
-
-    ; uint8x
-	=
-	""x y""
-}
-    options// @lengthOf(
-{ //
-	A = uint16
-
-}
-    root  packet BodyLength { @lengthOf(
-pack  )
-
-repeat metadata
-
-T `{ , }`  
-      // packet A { u8 x, }
-
-  //	t
-
-	,  }
-
-    packet  chars
-{}
-    // packet A { u8 x, }
-")).
-Eval vm_compute in ("<<<M1194>>>" ++ check (runes_of_ascii "packet asx
-{// c
-@calculatedFrom(
-""\" ++ [233]%N ++ runes_of_ascii """ )
-crc
-    { int8 zchar @calculatedFrom(""" ++ [128512]%N ++ runes_of_ascii """ )
-,
-    } // trailing space 
-, roots@lengthOf( // a // b
-metadata )`` ,
-@calculatedFrom(
-""1"" //
-)@lengthOf(
-    matchKey) //	t
-@calculatedFrom( """ ++ [233]%N ++ runes_of_ascii "t" ++ [233]%N ++ runes_of_ascii """ )
-    // packet A { u8 x, }
-    u Header	, u128 ,	match _x as
-    msg_type{ 1 :
-    BodyLength	,42
-    : packetx	, //	t
-[ ""{,}"" ] :// c
-chars , //
-[ ""`tick`"" ,	0 ,
-    """ ++ [233]%N ++ runes_of_ascii "t" ++ [233]%N ++ runes_of_ascii """ ,
-// a // b
-// " ++ [27880; 37322]%N ++ runes_of_ascii "
-65535
-//
-// trailing space 
-, ""packet"", ""{,}"" ] : chars ,	3
-/// triple
-// @lengthOf(
-: packetx ,	7
-//
-// packet A { u8 x, }
-:crc , } , @lengthOf(
-    len )repeatCount { zchar[ 65535
-    ] x_y_z
-,	} , f32a
-    @lengthOf( body  )
-    ,  } //x")).
-Eval vm_compute in ("<<<M4072>>>" ++ check (runes_of_ascii "// " ++ [27880; 37322]%N ++ runes_of_ascii "
-root packet _x {
-    @rightPad()
-    zchar[007] Logon @calculatedFrom(""x y""),
-    zchar[7] string_ @lengthOf(Packet) `two words`,
-    @tag(007)
-    @calculatedFrom(""x y"")
-    repeat calculatedFrom {
-        // packet A { u8 x, }
-        zchar @calculatedFrom(""" ++ [233]%N ++ runes_of_ascii "t" ++ [233]%N ++ runes_of_ascii """),
-        int32 leftPad,
-    },
-    repeat body chars,
-    @lengthOf(options1)
-    repeat char[255] Foo,
-    // c
-    //
-    repeat MetaDataX {
-        pack,
-    },
-    char[7] repeatCount @calculatedFrom(""it's""),
-}
-
-// trailing space 
-packet Packet {
-    Header @lengthOf(uint8x) `two words`,
+    @calculatedFrom(""a	b"")
+    u32 stringy @lengthOf(lengthOf),
+    Foo `line1
+        line2`,
+    crc `u8 x,`,// @lengthOf(
 }
 
 options {
-}
-
-root packet msg_type {
-    int32 body `" ++ [28040; 24687; 31867; 22411]%N ++ runes_of_ascii "`,
-}")).
-Eval vm_compute in ("<<<M4258>>>" ++ check (runes_of_ascii "// trailing space 
-packet o {
-    @calculatedFrom(""`tick`"")
-    repeat i8 rootA,
-    @calculatedFrom(""`tick`"")
-    Logon body `line1
-        line2`,// " ++ [128512]%N ++ runes_of_ascii " emoji
-    @lengthOf(crc)
-    @tag(0)
-    repeat falsey string_,
-    @calculatedFrom("""")
-    lengthOf,
-    u16 calculatedFrom,
-    i8i8 tag `two words`,
-    @tag(1)
-    string rootA `u8 x,`,
-    match pack as int {
-        [
-            10, 0, 4294967296, """ ++ [233]%N ++ runes_of_ascii "t" ++ [233]%N ++ runes_of_ascii """, ""\" ++ [233]%N ++ runes_of_ascii """,
-            ""packet"", """ ++ [28040; 24687]%N ++ runes_of_ascii """, """ ++ [233]%N ++ runes_of_ascii "t" ++ [233]%N ++ runes_of_ascii """
-        ] : int,
-        3 : zchar,
-        """ ++ [128512]%N ++ runes_of_ascii """ : options1,
-        00 : x_y_z,
-        4294967296 : chars,
-    },
-    float32 matchKey,
-    T,
-}")).
-Eval vm_compute in ("<<<M1013>>>" ++ check (runes_of_ascii "options { int =
-""`tick`"" ; Foo  =' '	; Foo =
-""x y"" ; x_y_z	= ""x y""
-    //	t
-    ;}packet uint8x { @lengthOf( int
-// `tick` ""quote"" 'q'
-// trailing space 
-)
-@tag( 0 )
-    Pad // `tick` ""quote"" 'q'
-,u8 x ,	@lengthOf(Z9_ )
-    f32 BodyLength
-    `crlf
-line` ,repeat
-char[255
-] f32a
-    ,  repeat msg_type
-lengthOf,
-@leftPad ('\x00'
-) repeat int32
-asx,
-    repeat string f32a //x
-, // `tick` ""quote"" 'q'
-} MetaData packetx { int64 asx , Foo
-len`// not a comment` , i32
-MetaDataX `" ++ [233]%N ++ runes_of_ascii "`
-    ,
-    Foo
-Header
-`line1
-line2` ,
-    zchar[ 0123456789
-] lengthOf ,	float32 metadata , }")).
-Eval vm_compute in ("<<<M42>>>" ++ check (runes_of_ascii "packet	BodyLength { repeat f32a Pad`// not a comment` ,
-// " ++ [128512]%N ++ runes_of_ascii " emoji
-// c
-}
-MetaData As { }options { crc
-    // packet A { u8 x, }
-    =
-""a\\""
-float= '\x00'
-    a1 // c
-= ' ';i8i8 =
-    4294967296
-}	packet u128 {
-// `tick` ""quote"" 'q'
-//
-match //x
-stringy as o{ ""`tick`""  : Foo  , [ 4294967296 ]	: x_y_z ,} ,zchar[ /// triple
-10 ] // `tick` ""quote"" 'q'
-Packet@lengthOf(u8x
-),
-@lengthOf(
-roots) // " ++ [27880; 37322]%N ++ runes_of_ascii "
-x
-    `// not a comment` , i64
-    asx @lengthOf( rootA ) , metadata ,
-i64_ @calculatedFrom(  ""\" ++ [233]%N ++ runes_of_ascii """ ) ,	@lengthOf(u128
-) repeat o `two words` , }
-")).
-Eval vm_compute in ("<<<M1360>>>" ++ check (runes_of_ascii "
-options { packetx = '\x00' o =
-    // `tick` ""quote"" 'q'
-    ""abc"" lengthOf // @lengthOf(
-=
-    255 zchar
-    =""" ++ [128512]%N ++ runes_of_ascii """
-Pad// packet A { u8 x, }
-= string
-;
-}
-root packet
-options1//x
-{ calculatedFrom
-    o  ,
-    x
-    @lengthOf( leftPad // " ++ [128512]%N ++ runes_of_ascii " emoji
-)
-    , match
-    _x as
-stringy { 3
-: i8i8 ,
-} ,
-    string T , }	root packet
-uint8x
-{ len
-/// triple
-// a // b
-``,} packet matchKey {match calculatedFrom
-as
-    // " ++ [27880; 37322]%N ++ runes_of_ascii "
-    Packet { [ """ ++ [28040; 24687]%N ++ runes_of_ascii """ , ""packet""//
-]:// packet A { u8 x, }
-rootA ,}	,	}options {
-    uint8x = false ; }
-")).
-Eval vm_compute in ("<<<M4254>>>" ++ check (runes_of_ascii "MetaData pack {
-}
-
-MetaData u {
-    zchar[7] lengthOf `say ""hi""`,
-}
-
-packet metadata {
-    @leftPad()
-    stringy chars,
-    repeat int {
-        uint8 A,
-        zchar[4294967296] Packet @lengthOf(x) `
-        `,
-        repeat crc zchar,
-    },
-    repeat options1 {
-        u16 u,
-        string_ {
-            string_ MetaDataX,
-            repeat char[0123456789] uint8x,
-            repeat uint32 T,
-        },
-        uint16 packetx,
-    },
-    @leftPad(' ')
-    rootA `crlf
-    line`,
-}")).
-Eval vm_compute in ("<<<M711>>>" ++ check (runes_of_ascii "MetaData f32a
-    // " ++ [27880; 37322]%N ++ runes_of_ascii "
-    { msg_type u128 , } options {
-    } // packet A { u8 x, }
-root packet body {
-    Packet `say ""hi""` , string
-pack `doc`
-    ,
-//	t
-//	t
-@tag( 10
-)
-lengthOf{	char[]
-    MetaDataX , u16 uint8x
-    @calculatedFrom( """" )  , uint32 options1
-`{ , }`
-// a // b
-//
-, _x
-,	} ,
-} packet int{} MetaData
-u128{ x_y_z
-    As ,
-    msg_type int`two words`,
+    //
+    x = float64;
+    u8x = """ ++ [128512]%N ++ runes_of_ascii """;
+    pack = ' ';
     // c
-    pack
-repeatCount ,	tag Z9_
-    , calculatedFrom
-chars // a // b
-`crlf
-line`
+    falsey = ""a\""b""
+}
+
+packet As {
+    repeat repeatCount u8x `doc`,
+    @leftPad('0')
+    @calculatedFrom(""\" ++ [233]%N ++ runes_of_ascii """)
+    match asx as crc {
+        4294967296 : u8x,
+        ""\n"" : u128,
+        0 : asx,
+        [255, ""x y""] : Logon,
+        0123456789 : A,
+        255 : i64_,
+    },
+    metadata @lengthOf(u8x),
+    repeat crc {
+        uint32 Packet,
+    },
+    @calculatedFrom(""" ++ [128512]%N ++ runes_of_ascii """)
+    T u128 `{ , }`,
+    repeat i32 msg_type,
+    @lengthOf(T)
+    int,
+    float {
+        // @lengthOf(
+        // `tick` ""quote"" 'q'
+        match trueish as leftPad {
+            [0, """ ++ [28040; 24687]%N ++ runes_of_ascii """] : f32a,
+        },
+        uint32 i8i8,
+        Packet {
+            char[65535] o @calculatedFrom(""it's""),
+        },// a // b
+    },
+    uint8 i8i8 `say ""hi""`,
+}/// triple
+
+packet BodyLength {
+}")).
+Eval vm_compute in ("<<<M4310>>>" ++ check (runes_of_ascii "packet
+    repeatCount 
+
+    // @lengthOf(
+
+  //
+	{ repeat
+	Header
+
+,  char[	42
+    ]  rootA
+``,
+
+    @lengthOf(	stringy )repeat	int16
+
+    leftPad  ,
+repeat 	 // `tick` ""quote"" 'q'
+  	crc  {  
+      //x
+// " ++ [128512]%N ++ runes_of_ascii " emoji
+    zchar[	00
+	]
+body@lengthOf(Foo  ) 
+, repeat  Logon
+{
+    MetaDataX
+@lengthOf( 
+trueish),
+
+uint8 asx @calculatedFrom(
+	""\" ++ [233]%N ++ runes_of_ascii """
+)
+
+,
+
+    metadata 
+{
+
+    uint8x
+    @lengthOf(
+stringy
+
+)
+	,repeat	BodyLength
+    metadata`say ""hi""`
+    ,	}
+
+//x
+    //
+  ,
+	repeat  char[] u,  // trailing space 
+  }, int16
+
+matchKey
+``
+
+,	char[]  // trailing space 
+	u8x @lengthOf(string_), 
+} 
+, 	 // @lengthOf(
+	match
+Logon 
+as zchar 
+{
+[ ""x y""
+
+    , 65535// c
+	,
+	10 ]
+: chars [
+""{,}"" 
+,	""a\""b"" ]
+
+:
+leftPad, 
+  //	t
+  65535
+    :metadata //
+		,
+	[
+10
+
     ,
+
+7	// a // b
+
+,
+""// no comment""
+
+    , 	 // `tick` ""quote"" 'q'
+  	0
+, 65535
+,  // `tick` ""quote"" 'q'
+      ""abc""
+, 
+7  // " ++ [27880; 37322]%N ++ runes_of_ascii "
+	, 42 ]:MetaDataX	},  repeat
+int8  packetx 
+`// not a comment`
+
+,	// a // b
+
+  }
+packet	x// a // b
+	  {
+	u16 
+roots
+, } options{
+int
+
+    =
+4294967296 u8x = false ; }
+")).
+Eval vm_compute in ("<<<M1240>>>" ++ check (runes_of_ascii "MetaData lengthOf	{i64 u128
+    // trailing space 
+    ,uint32// trailing space 
+calculatedFrom
+,
+    char[ 00] string_ , }
+root
+    packet falsey{char[] // " ++ [128512]%N ++ runes_of_ascii " emoji
+len `line1
+line2` , @tag(255
+)
+uint8x @lengthOf(
+falsey	)
+,
+    float32 // `tick` ""quote"" 'q'
+len ,  repeat calculatedFrom i64_
+`say ""hi""`
+    ,
+    // c
+    @rightPad (
+    // " ++ [27880; 37322]%N ++ runes_of_ascii "
+    '0'	)
+    char[ 10]
+Logon , } packet rootA // c
+{
+// " ++ [128512]%N ++ runes_of_ascii " emoji
+// a // b
+x { falsey
+    Logon
+    ,
+    trueish@calculatedFrom( ""`tick`"")
+    `// not a comment`
+, uint8x
+    body ,
+    } , @calculatedFrom( ""{,}""
+)@calculatedFrom( ""a\\"" )match //x
+f32a as i8i8 {// " ++ [27880; 37322]%N ++ runes_of_ascii "
+10 :
+matchKey , 1:	packetx , 0123456789 :
+    Header
+,
+    ""it's"" :  i64_ , // packet A { u8 x, }
+0 : pack ,} ,repeat
+uint8x	x_y_z`" ++ [28040; 24687; 31867; 22411]%N ++ runes_of_ascii "`, repeat
+char[
+255 ] string_ ,
+@lengthOf( int ) calculatedFrom , @tag( 4294967296
+) u16 packetx @calculatedFrom(  """ ++ [28040; 24687]%N ++ runes_of_ascii """ ) ,	u128 body`doc` , }
+    root packet	tag {
+//x
+// `tick` ""quote"" 'q'
+i32 A
+// @lengthOf(
+// packet A { u8 x, }
+, }
+    options { }")).
+Eval vm_compute in ("<<<M3639>>>" ++ check (runes_of_ascii "options {
+    StringPrefixLenType = u64;
+    ArrayPrefixLenType = u16;
+    FixedStringPadChar = ' ';
+}
+packet Logon {
+    i32 msgKind,
+    repeat InOrderid65 {
+        u8 pad0,
+    },
+    i8 tag7,
+    @leftPad(' ') char[12] x,
+}
+packet Leg {
+    char[] f1,
+    repeat char[5] Px,
+    InQty34 {
+        repeat char[6] Qty,
+        char[7] seqNo,
+        string count,
+    },
+    Logon,
+}
+packet Party {
+    @leftPad('0') char[10] OrderId,
+    string Tail,
+}
+packet Fill {
+    zchar[5] venue,
+    zchar[3] clOrdID,
+    InRef95 {
+        InLastpx25 {
+            u8 pad0,
+        },
+        float64 OrderId,
+        i32 f1,
+        float32 x,
+        char[] seqNo,
+    },
+    repeat string seqNo,
+}
+root packet Heartbeat {
+    repeat Leg,
+    u32 seqNo,
+    u16 tag7,
+    u32 Flags @lengthOf(Body),
+    match tag7 as Body {
+        [195, 75] : Party,
+        171 : Fill,
+        78 : Logon,
+        142 : Leg,
+    },
+    u32 Note @calculatedFrom(""CRC32""),
 }
 ")).
-Eval vm_compute in ("<<<M612>>>" ++ check (runes_of_ascii "root
+Eval vm_compute in ("<<<M3932>>>" ++ check (runes_of_ascii "MetaData metadata {
+    /// triple
+    packetx Packet,
+    // trailing space 
+    chars body,
+    char[] MetaDataX,
+    u32 stringy,
+    float32 packetx `" ++ [28040; 24687; 31867; 22411]%N ++ runes_of_ascii "`,
+}
+
+options {
+    lengthOf = uint16;
+    pack = '0';
+    charz = char[];
+    u = f64;
+    options1 = float32;
+}
+
+root packet charz {
+    repeat uint32 float,
+    stringy,// packet A { u8 x, }
+    uint8x {
+        chars {
+            match Foo as u8x {
+                ""a\\"" : int,
+            },
+            string Z9_ @calculatedFrom(""" ++ [28040; 24687]%N ++ runes_of_ascii """) `// not a comment`,
+            match trueish as MetaDataX {
+                [0, ""CRC32"", 007, 007, 0123456789] : Foo,
+                255 : falsey,
+                007 : _x,
+                255 : Header,
+                007 : lengthOf,
+                ""{,}"" : Header,
+            },
+        },
+        zchar[65535] leftPad `line1
+                line2`,
+        char[007] Z9_ @lengthOf(u8x),
+    },
+}")).
+Eval vm_compute in ("<<<M1094>>>" ++ check (runes_of_ascii "root
+packet leftPad {match As as
+A {
+00 :i8i8, ""x y"": Packet
+""abc"" :falsey
+// trailing space 
+//x
+,  } , float32 trueish,
+@calculatedFrom( ""1"" ) u64  roots`line1
+line2` // trailing space 
+,
+@tag( 42 //	t
+) string
+int
+    @lengthOf(
+    Header ) , @tag(
+    1 ) @lengthOf( // c
+float) rootA  Z9_,match msg_type as metadata {[ 7 ,	0123456789 ] /// triple
+: uint8x	, [ 255 ]:int ,
+    // @lengthOf(
+    255
+    // trailing space 
+    :  lengthOf , ""a\\""  : u128, ""1"" : // packet A { u8 x, }
+u128
+    , }
+,roots //	t
+int `two words` ,repeat BodyLength asx
+,lengthOf@lengthOf(packetx ) ,@lengthOf(
+a1
+) char[
+    /// triple
+    10
+    ]
+//	t
+//
+x, }
+    options { f32a
+= '0'
+; chars
+    =  ' ';Header= ' ' ; i8i8
+    =zchar[ 007 ]
+; leftPad =
+' '
+    ;
+}packet falsey
+    {	@lengthOf(
+    u8x
+)x@lengthOf(tag
+)
+    // @lengthOf(
+    , }
+")).
+Eval vm_compute in ("<<<M918>>>" ++ check (runes_of_ascii "  packet
+// `tick` ""quote"" 'q'
+//x
+uint8x{zchar[
+    007
+] Header @calculatedFrom( ""a	b"")
+,	}packet i64_{ @lengthOf(
+crc ) /// triple
+string metadata`
+`//	t
+, // trailing space 
+uint8x // " ++ [128512]%N ++ runes_of_ascii " emoji
+{ repeat
+u16
+string_ ,} , // `tick` ""quote"" 'q'
+packetx
+{ zchar[
+    0123456789]calculatedFrom
+@calculatedFrom(
+""" ++ [28040; 24687]%N ++ runes_of_ascii """ ) `crlf
+line`	, tag { zchar[  007 ] tag @calculatedFrom(""1"" )
+, string u ,	repeat
+A
+T
+,
+roots
+@lengthOf( Logon
+    ) ,
+    // `tick` ""quote"" 'q'
+    } , u8x `` , int64 metadata `tab	here` , }
+,
+}  packet rootA{
+@lengthOf( string_) Header A`doc` ,
+match stringy as x {// c
+0123456789: metadata,0 : rootA
+,
+42
+:
+A
+, [ 00 ,""abc"" ]
+:
+T	4294967296 : a1 , // @lengthOf(
+},
+@rightPad
+    (	'0' ) @tag(4294967296 )
+    @tag( 00) char[] Foo @calculatedFrom( ""1"" ) `crlf
+line`, }")).
+Eval vm_compute in ("<<<M638>>>" ++ check (runes_of_ascii "MetaData roots {	charz matchKey //
+`two words`
+    , char[	65535 ] //	t
+T `// not a comment`
+, char[]
+tag , string
+/// triple
+// @lengthOf(
+a1 `two words`
+,
+} root packet stringy
+    // trailing space 
+    { repeat roots {repeat calculatedFrom	len
+// " ++ [128512]%N ++ runes_of_ascii " emoji
+// " ++ [128512]%N ++ runes_of_ascii " emoji
+,
+} ,  @tag( 42
+)  @rightPad(/// triple
+'0' )@tag(
+007
+)  f32 lengthOf @lengthOf( tag ) `crlf
+line`
+,	int32 chars,zchar[ 3
+]
+rootA @calculatedFrom(
+""a\""b"" )// c
+, @rightPad
+( ) @calculatedFrom(""" ++ [128512]%N ++ runes_of_ascii """
+) @tag(	0123456789 ) Foo {char[] u8x	@lengthOf( charz
+    // @lengthOf(
+    ) , A	, } ,
+    match repeatCount as
+body{
+""\n"" :  T, [
+    """ ++ [128512]%N ++ runes_of_ascii """, 255
+// @lengthOf(
+/// triple
+] : lengthOf , } ,
+@calculatedFrom(""x y"" )
+    u8
+packetx
+@calculatedFrom(//x
+""CRC32"" // a // b
+) `tab	here` ,
+    }
+")).
+Eval vm_compute in ("<<<M1204>>>" ++ check (runes_of_ascii "packet
+float {
+match
+asx as len {255
+:metadata
+},char[ 4294967296] x  @lengthOf( lengthOf ),matchKey int
+,} packet  falsey { @tag( 0123456789	) match
+    u128 // a // b
+as
+stringy  {
+    // " ++ [128512]%N ++ runes_of_ascii " emoji
+    0123456789 :
+u128 // packet A { u8 x, }
+[
+3
+,
+    ""CRC32"" ,	7
+// packet A { u8 x, }
+// @lengthOf(
+, 10
+    , 0 ] :o	, 1 /// triple
+:charz // " ++ [128512]%N ++ runes_of_ascii " emoji
+, 0123456789 :
+u ,255 :
+pack
+, } ,
+    }  packet T
+{
+    // " ++ [27880; 37322]%N ++ runes_of_ascii "
+    @lengthOf(
+    /// triple
+    Z9_ ) @rightPad (  '0' ) @calculatedFrom(
+    ""// no comment"" // `tick` ""quote"" 'q'
+)zchar[
+007
+    ] leftPad ,@calculatedFrom(
+""1"" )char[]As
+`two words` ,
+    @leftPad ( '0' ) repeat char[
+    0123456789
+    ]x `// not a comment`, char[ 1
+// " ++ [27880; 37322]%N ++ runes_of_ascii "
+//x
+]_x// " ++ [128512]%N ++ runes_of_ascii " emoji
+, }")).
+Eval vm_compute in ("<<<M1299>>>" ++ check (runes_of_ascii "root packet
+pack { } MetaData falsey  {	char[]A`// not a comment`
+, }  packet uint8x{
+repeat o
+    { u64 string_@calculatedFrom( // " ++ [128512]%N ++ runes_of_ascii " emoji
+""" ++ [233]%N ++ runes_of_ascii "t" ++ [233]%N ++ runes_of_ascii """ ) , }, repeat string_ `" ++ [28040; 24687; 31867; 22411]%N ++ runes_of_ascii "`
 //	t
 // @lengthOf(
-packet int //x
-{ @rightPad ( '0' ) match Packet as x_y_z
-{ 3 //	t
-:zchar // a // b
-, ""1""
-:
-x //
-, 42 : a1	, [ """ ++ [233]%N ++ runes_of_ascii "t" ++ [233]%N ++ runes_of_ascii """ ]:	matchKey
-    ,42: x_y_z
-[ ""a\""b"",
-    7	, // packet A { u8 x, }
-""it's"" ,
-    // c
-    007	, ""a\""b"" ] :
-    Foo
-    ,
-    },} // c
-MetaData Foo { u32 chars//	t
-`it's` //
-,u32
-    falsey
-, Header
-trueish
+,  repeat u { packetx @lengthOf( len) `doc`,
+}
 ,
-    tag As, } options { asx=u16
-    ; }
-packet
-    options1
-{repeat char[255  ] charz , }options { }")).
-Eval vm_compute in ("<<<M458>>>" ++ check (runes_of_ascii "packet tag {match asx as u128 {""1"" : T 0123456789 // trailing space 
-:rootA ,
-    7 : i8i8	,
-65535 : // `tick` ""quote"" 'q'
-chars , }
+@lengthOf(u8x ) float32	MetaDataX
+@calculatedFrom( """ ++ [233]%N ++ runes_of_ascii "t" ++ [233]%N ++ runes_of_ascii """ ) , uint8 MetaDataX `it's`
     ,
-zchar[
-7 ] options1 , zchar[255]
-asx, @leftPad( '0' ) stringy
-`" ++ [28040; 24687; 31867; 22411]%N ++ runes_of_ascii "`
-,  u64 zchar
-@calculatedFrom(
-    // c
-    ""\n"" )
-, len
-// `tick` ""quote"" 'q'
-// c
-@calculatedFrom( ""// no comment""
-)  `" ++ [28040; 24687; 31867; 22411]%N ++ runes_of_ascii "`//	t
-, @leftPad(  '0' ) tag @lengthOf(	calculatedFrom ) , repeat
-    //
-    uint64 metadata`a\`,}
+@rightPad (	'\x00' ) repeat
+    // a // b
+    crc
+{
+    x_y_z
+@lengthOf(As)  `line1
+line2`
+,i32
+    //	t
+    repeatCount,
+// a // b
+// @lengthOf(
+repeat Pad  { repeat string_ `" ++ [233]%N ++ runes_of_ascii "` , leftPad
+    { char[]
+float , }
+,	}  , }
+    , @calculatedFrom( ""it's""  ) zchar[ 42 ]A @lengthOf( matchKey ) , roots@calculatedFrom( ""CRC32"" ) // @lengthOf(
+`a\`, }
 ")).
-Eval vm_compute in ("<<<M3727>>>" ++ check (runes_of_ascii "// `tick` ""quote"" 'q'
+Eval vm_compute in ("<<<M1176>>>" ++ check (runes_of_ascii "
+options {leftPad
+    =
+""{,}""f32a = true
+trueish
+    = zchar[ 007]
+    ;	crc
+// " ++ [27880; 37322]%N ++ runes_of_ascii "
+// @lengthOf(
+= ""`tick`"" ;// c
+} //x
+root	packet
+    body { asx @lengthOf(	f32a // `tick` ""quote"" 'q'
+) `` , f64 body @lengthOf(
+int) , zchar[ 255] BodyLength , zchar[ 7	]
+    leftPad
+/// triple
+// packet A { u8 x, }
+`line1
+line2`, @lengthOf(  asx )u128
+    @lengthOf(
+BodyLength )	`// not a comment`
+,
+    @lengthOf( As )
+char[ 42	] _x
+@lengthOf(  i8i8)`line1
+line2` , char[ 1 //	t
+]
+    // a // b
+    options1 @calculatedFrom(""packet"" )`say ""hi""`
+, }
+options
+{ leftPad= 007
+;
+charz =false repeatCount =
+    ""// no comment"" u// a // b
+= 0123456789 }
+")).
+Eval vm_compute in ("<<<M1381>>>" ++ check (runes_of_ascii "packet metadata {//	t
+leftPad  { u64 stringy , }
+,
+} packet
+matchKey
+{  repeat u64 x_y_z, }MetaData
+f32a{
+} root packet  As  {
+@lengthOf(	Logon  ) float64
+A , @leftPad  (// " ++ [27880; 37322]%N ++ runes_of_ascii "
+'0' )u32
+    i64_ /// triple
+`// not a comment`/// triple
+, repeat i8
+    chars ,@lengthOf( x_y_z
+)	Foo x
+, stringy , chars @calculatedFrom( ""CRC32"" ) ,
+    @tag(
+0 ) int64 pack `
+` ,
+@rightPad ( )
+@calculatedFrom(
+""abc"" )
+@tag(// packet A { u8 x, }
+0 ) char[	0 ] msg_type // a // b
+,// " ++ [27880; 37322]%N ++ runes_of_ascii "
+tag {
+    char[	007 ]	zchar@lengthOf(
+    chars) , As@lengthOf(	charz )
+    `doc` , body `u8 x,`	,
+    } ,Foo
+    `two words`
+    ,
+}
+")).
+Eval vm_compute in ("<<<M1113>>>" ++ check (runes_of_ascii "packet  metadata { f64 float
+    //
+    `crlf
+line` , i32 asx @calculatedFrom(
+""`tick`"" ) ,
+/// triple
+// c
+A ,}
+root packet zchar  {
+// trailing space 
+// packet A { u8 x, }
+match matchKey
+    as
+    roots//x
+{
+""a\""b"" :	zchar ,""`tick`""
+:
+    int
+    ,""\n"" : packetx ,
+0// " ++ [27880; 37322]%N ++ runes_of_ascii "
+: Z9_ , }, int32 a1
+, @tag(42 ) // " ++ [128512]%N ++ runes_of_ascii " emoji
+@rightPad ('0') @tag( 65535 )char[ 00 ] calculatedFrom
+,packetx@lengthOf( options1 )
+    , }
+root
+packet body{ match
+    f32a as msg_type {[ 42 ]: matchKey // a // b
+, 3 :
+rootA
+    // @lengthOf(
+    , [
+    // c
+    00]
+    : packetx 10 : falsey	, }	,}options {
+}
+")).
+Eval vm_compute in ("<<<M4123>>>" ++ check (runes_of_ascii "MetaData uint8x {
+    char[7] Foo,
+    float64 repeatCount,/// triple
+    a1 uint8x `// not a comment`,
+}
 
-	packet i8i8 { // a // b
+packet Header {
+    @calculatedFrom(""packet"")
+    repeat calculatedFrom charz,
+}
 
-	@rightPad (
-	)
-body  @calculatedFrom( // a // b
-	  ""\" ++ [233]%N ++ runes_of_ascii """ 
-)	, i64
+packet rootA {
+    @calculatedFrom(""abc"")
+    @calculatedFrom("""")
+    @lengthOf(asx)
+    repeat repeatCount,
+    repeat o {
+        crc options1,
+        zchar[7] A,
+        Z9_ @lengthOf(Pad),
+        calculatedFrom @calculatedFrom(""a\""b""),
+    },
+    repeat a1 Foo `{ , }`,
+    charz,
+}
 
-    Header
-@lengthOf(trueish
-	)  ,
+options {
+    body = """ ++ [28040; 24687]%N ++ runes_of_ascii """;
+    packetx = 0
+}
+
+MetaData _x {
+    int16 crc,
+}")).
+Eval vm_compute in ("<<<M3611>>>" ++ check (runes_of_ascii "// top
+packet
+    // c0
+Logon // c1
+{ string // c3
+user , // c5
+} root // c7
+packet // c8
+Frame { u8 K // c12
+,
+    // c13
+match
+    // c14
+K // c15a
+  // c15b
+as
+    // c16
+Body // c17
+{ // c18a
+  // c18b
+1 :
+    // c20
+Logon // c21a
+  // c21b
+, // c22
+2 // c23
+: Logout
+    // c25
+, // c26
+} // c27a
+  // c27b
+, // c28a
+  // c28b
+Tail // c29a
+  // c29b
+, // c30
+} packet
+    // c32
+Logout // c33
+{ // c34a
+  // c34b
+u16
+    // c35
+reason // c36
+, // c37a
+  // c37b
+} packet Tail // c40
+{
+    // c41
+u32 // c42
+crc
+    // c43
+, } ")).
+Eval vm_compute in ("<<<M4430>>>" ++ check (runes_of_ascii "root 
+packet A
+
+{// packet A { u8 x, }
+	  char[]
+msg_type `two words` ,// a // b
+@calculatedFrom(""abc"")
+    @leftPad ( 
+'\x00' )
+
+    @calculatedFrom(
+    ""x y"" ) repeat
+    //x
+		// @lengthOf(
+	int64
+chars  ,  zchar[	1	]
+
+    _x
+@calculatedFrom(  ""1"" )
+
+    `doc`
+	, 
+        // c
+
+	//x
+} packet
+	stringy{ int8 calculatedFrom 
+@lengthOf(
+_x
+	) `line1
+line2`
+
+    ,
 @tag(
 
-    65535	) @lengthOf( tag//
-		)@tag(
-255
-	)
-repeat	float32
+    42 
+)char[
+10
+]  //
+  Logon
 
-    repeatCount 
-,	char[1	]  rootA`u8 x,` ,
-    @lengthOf(
-_x )
-
-@lengthOf(
-	Header  )
-    @calculatedFrom(""""
-    )
-	//x
-
-	// trailing space 
-    i8i8	pack  // trailing space 
-    ,
-	} ")).
-Eval vm_compute in ("<<<M4255>>>" ++ check (runes_of_ascii "  packet
-
-pack // @lengthOf(
-	{repeat As  // " ++ [27880; 37322]%N ++ runes_of_ascii "
-	{
-
-    char[
-
-65535
-]
-
-    u128	// a // b
-	@lengthOf(
-a1	)`tab	here` , i8  rootA `crlf
-line`,
-
-match	//x
-	i8i8 as zchar  { [
-""1"" ]
-: tag
-    ,
-
-""a	b"" :
-
-u8x	""a\""b"":
-calculatedFrom ,
-}
-    ,
-    match leftPad 	 //	t
-  as  Pad
-{ 
-  // `tick` ""quote"" 'q'
-  // trailing space 
-	65535	: options1
-}
+    @lengthOf(  roots  )`" ++ [233]%N ++ runes_of_ascii "` // " ++ [128512]%N ++ runes_of_ascii " emoji
 
 ,
-	},u32
-    crc 
+	i32  //
+    options1 
 ,
-zchar[ 
-00
-]
-roots,}
+    i16	x_y_z , }
 ")).
-Eval vm_compute in ("<<<M94>>>" ++ check (runes_of_ascii "options { o =
-    ' ' ; lengthOf= ""it's"" string_= """ ++ [28040; 24687]%N ++ runes_of_ascii """	;i8i8 // c
-=  uint32 } packet Logon{	Pad	@lengthOf(
-    stringy),@rightPad (	'\x00'
-) Header stringy `a\` , T { match	a1
-    as Logon{  42 :
-chars }	, },stringy {
-zchar[ 7 // trailing space 
-] x_y_z, }, uint8x BodyLength
-, repeat zchar ,	@tag( 7 ) repeat // packet A { u8 x, }
-u64 u128`" ++ [28040; 24687; 31867; 22411]%N ++ runes_of_ascii "` // packet A { u8 x, }
-, }")).
-Eval vm_compute in ("<<<M4138>>>" ++ check (runes_of_ascii "packet u128 {
+Eval vm_compute in ("<<<M3689>>>" ++ check (runes_of_ascii "
+
+  // c
+  options
+    {// " ++ [27880; 37322]%N ++ runes_of_ascii "
+	MetaDataX =
+	0 
 }
 
-// " ++ [128512]%N ++ runes_of_ascii " emoji
-root packet rootA {
-    @tag(007)
-    match uint8x as crc {
-        ""a\""b"" : charz,
-    },
-    // packet A { u8 x, }
-    uint64 repeatCount,
-    @tag(007)
-    uint8 f32a,
-    @rightPad(' ')
-    @leftPad('\x00')
-    @lengthOf(stringy)
-    T @lengthOf(charz),
-    metadata matchKey,
-}
+    root
 
-packet msg_type {
-    stringy zchar `" ++ [28040; 24687; 31867; 22411]%N ++ runes_of_ascii "`,
-}")).
-Eval vm_compute in ("<<<M4139>>>" ++ check (runes_of_ascii "root
-
-    packet Header	{@calculatedFrom(
-""a\""b""  )
-
-o
-	MetaDataX
-`{ , }`,
-float , repeat 
-u8
-string_ , repeat
-a1
-	{
-repeat
-	zchar[ 3/// triple
-
-	]	a1 , repeat
-
-Foo	// " ++ [27880; 37322]%N ++ runes_of_ascii "
-  	u,
-}
-
-,}
-MetaData	uint8x
-{ }MetaData
-
-int{
-	zchar[	4294967296 
-]
-
-    roots ,
-	}
-
-    MetaData
-    i64_{ zchar[	/// triple
-	1
-	]
-	falsey 
-`// not a comment`	, 
-}")).
-Eval vm_compute in ("<<<M3825>>>" ++ check (runes_of_ascii "packet string_ {
-    trueish {
-        options1 @lengthOf(Z9_) `// not a comment`,// c
-        _x @lengthOf(u128),/// triple
-        match packetx as charz {
-            [1, 3, 10, ""a\\""] : lengthOf,
-            """ ++ [28040; 24687]%N ++ runes_of_ascii """ : float,
-            ""CRC32"" : calculatedFrom,
-            """ ++ [128512]%N ++ runes_of_ascii """ : tag,
-            00 : rootA,
-        },
-    },
-}")).
-Eval vm_compute in ("<<<M4093>>>" ++ check (runes_of_ascii "  packet
-    trueish { repeat
-	As ,
-    repeat
-uint8
-repeatCount,
-    @tag( 
-255 )
-
-    match  a1  as 
-x_y_z	{
-3:
-
-i8i8
+    packet
+	Z9_ {	char[] packetx  `doc`,
+BodyLength  zchar
     ,
 
-""abc""
+    float32	BodyLength
+
+    , @calculatedFrom( ""\" ++ [233]%N ++ runes_of_ascii """ 
+)match
+
+    trueish as// a // b
+  T
+
+{
+255:uint8x // @lengthOf(
+	,  // packet A { u8 x, }
+	""" ++ [233]%N ++ runes_of_ascii "t" ++ [233]%N ++ runes_of_ascii """ :	charz,
+	""a\\""
 
     :
+falsey
 
-    Z9_
+""{,}""
 
-,007
-
-    /// triple
-//
-	  : 
-leftPad
-
-65535
-
-:
-x_y_z
-""a\""b""  : 
-matchKey ,
+:MetaDataX ,
 }
+
+,	// trailing space 
+	}
+    options	{
+    } options{
+msg_type = 42
+
+pack =true repeatCount
+    =  4294967296 ; leftPad= ""it's""	// " ++ [27880; 37322]%N ++ runes_of_ascii "
+	; 
+}
+
+")).
+Eval vm_compute in ("<<<M3953>>>" ++ check (runes_of_ascii "MetaData
+
+f32a
+
+    {  char[] trueish ,	float64
+
+    u128 
+`" ++ [28040; 24687; 31867; 22411]%N ++ runes_of_ascii "` ,
+        //	t
+	tag	// a // b
+  f32a
 ,
-
-@rightPad
-
-    (' ') 	 // `tick` ""quote"" 'q'
-	string packetx ,	// " ++ [128512]%N ++ runes_of_ascii " emoji
-} ")).
-Eval vm_compute in ("<<<M2038>>>" ++ check (runes_of_ascii "MetaData
-    u { }  options {
-// c
-// @lengthOf(
-float = int8 ;rootA =false ; As =	int16 // `tick` ""quote"" 'q'
-repeatCount
-    // trailing space 
-    =
-    int16
-; u8x =
-    //	t
-    '\x00' ; } options	{
-    repeatCount
-= 0
-u128
-    //
-    = false ; i64_
-// trailing space 
-// `tick` ""quote"" 'q'
-int16 '0' ; //	t
-}
-")).
-Eval vm_compute in ("<<<M2026>>>" ++ check (runes_of_ascii "MetaData
-    u { }  options {
-// c
-// @lengthOf(
-float = int8 ;rootA =false ; As =	int16 // `tick` ""quote"" 'q'
-repeatCount
-    // trailing space 
-    =
-    int16
-; u8x =
-    //	t
-    '\x00' ; } options	{
-    repeatCount
-= 0
-u128
-    //
-    = false ; ; i64_
-// trailing space 
-// `tick` ""quote"" 'q'
-= '0' ; //	t
-}
-")).
-Eval vm_compute in ("<<<M1867>>>" ++ check (runes_of_ascii "MetaData
-    u } {  options {
-// c
-// @lengthOf(
-float = int8 ;rootA =false ; As =	int16 // `tick` ""quote"" 'q'
-repeatCount
-    // trailing space 
-    =
-    int16
-; u8x =
-    //	t
-    '\x00' ; } options	{
-    repeatCount
-= 0
-u128
-    //
-    = false ; i64_
-// trailing space 
-// `tick` ""quote"" 'q'
-= '0' ; //	t
-}
-")).
-Eval vm_compute in ("<<<M2017>>>" ++ check (runes_of_ascii "MetaData
-    u { }  options {
-// c
-// @lengthOf(
-float = int8 ;rootA =false ; As =	int16 // `tick` ""quote"" 'q'
-repeatCount
-    // trailing space 
-    =
-    int16
-; u8x =
-    //	t
-    '\x00' ; } options	{
-    repeatCount
-= 0
-u128
-    //
-    false = ; i64_
-// trailing space 
-// `tick` ""quote"" 'q'
-= '0' ; //	t
-}
-")).
-Eval vm_compute in ("<<<M2035>>>" ++ check (runes_of_ascii "MetaData
-    u { }  options {
-// c
-// @lengthOf(
-float = int8 ;rootA =false ; As =	int16 // `tick` ""quote"" 'q'
-repeatCount
-    // trailing space 
-    =
-    int16
-; u8x =
-    //	t
-    '\x00' ; } options	{
-    repeatCount
-= 0
-u128
-    //
-    = false ; i64_
-// trailing space 
-// `tick` ""quote"" 'q'
- '0' ; //	t
-}
-")).
-Eval vm_compute in ("<<<M502>>>" ++ check (runes_of_ascii "
-root  packet BodyLength {
-    match
-matchKey as
-    As  { 255: Foo
-//
-//x
-,  10 :
-len , // packet A { u8 x, }
-""" ++ [233]%N ++ runes_of_ascii "t" ++ [233]%N ++ runes_of_ascii """
-    :tag , }
-    //	t
-    , packetx A , @calculatedFrom(
-""" ++ [233]%N ++ runes_of_ascii "t" ++ [233]%N ++ runes_of_ascii """) Logon `crlf
-line` // c
-, char[]
-charz
-    `a\` , zchar[
-    //x
-    42 ] chars , }
-    MetaData charz
-{ }
-packet zchar {}")).
-Eval vm_compute in ("<<<M2044>>>" ++ check (runes_of_ascii "MetaData
-    u { }  options {
-// c
-// @lengthOf(
-float = int8 ;rootA =false ; As =	int16 // `tick` ""quote"" 'q'
-repeatCount
-    // trailing space 
-    =
-    int16
-; u8x =
-    //	t
-    '\x00' ; } options	{
-    repeatCount
-= 0
-u128
-    //
-    = false ; i64_
-// trailing space 
-// `tick` ""quote"" 'q'
-=")).
-Eval vm_compute in ("<<<M4167>>>" ++ check (runes_of_ascii "
-/// triple
-		root
-    packet Logon	{
-
-@calculatedFrom( 
-""CRC32"" 
-)uint8x{roots	pack `line1
-line2`,
-    }
-, 
-string 
-u
-
-,	}packet
-
-body
+	matchKey// " ++ [128512]%N ++ runes_of_ascii " emoji
+    	int
+    `two words`, i8 pack `a\`  , }
+packet asx
 	{
 
-    uint64 Logon
+    int8 Header
+`say ""hi""`
+	,
+    }MetaData
+    roots { i32 tag
+
+`" ++ [233]%N ++ runes_of_ascii "`	, crc
+	Z9_  ,T
+
+T
+`
+` ,//
+  int32 matchKey ,  matchKey
+Header`line1
+line2`
+    // " ++ [27880; 37322]%N ++ runes_of_ascii "
+// trailing space 
+	,
+    // `tick` ""quote"" 'q'
+
+  //x
+char[	0 ]
+	MetaDataX
 ,
-    }
+// c
+	// @lengthOf(
 
-root
-packet
-
-lengthOf
-
-{  } packet A{
-	u32
-    pack // `tick` ""quote"" 'q'
-	@calculatedFrom( 	 // c
-
-	""" ++ [128512]%N ++ runes_of_ascii """
-	)
+  } 	 // " ++ [27880; 37322]%N ++ runes_of_ascii "
+")).
+Eval vm_compute in ("<<<M1000>>>" ++ check (runes_of_ascii "MetaData roots{ }MetaData x_y_z// trailing space 
+{
+zchar[	42 ]
+    i8i8
+, options1 _x`doc` ,i8 zchar
+    , uint16 Pad`u8 x,`,	} packet MetaDataX{
+    zchar[
+4294967296 ] rootA  ,
+//
+//x
+}	packet
+    T { //x
+@lengthOf( len	) @tag( 42) int64 float `{ , }` // c
+, @lengthOf(i64_)As @lengthOf(falsey
+    // a // b
+    ) ,
+int64 Pad	@lengthOf( _x)
+`it's` , @lengthOf( len
+    ) char[
+255
+]Pad`" ++ [28040; 24687; 31867; 22411]%N ++ runes_of_ascii "`, }
+    MetaData Foo
+{// " ++ [27880; 37322]%N ++ runes_of_ascii "
+char[	1 ] As ,}
+")).
+Eval vm_compute in ("<<<M1135>>>" ++ check (runes_of_ascii "options{
+    //	t
+    o=
+float64 ; rootA =""a	b"" tag =
+    // a // b
+    true ;
+BodyLength = //	t
+""\" ++ [233]%N ++ runes_of_ascii """
+    ;
+} packet leftPad	{
+    u8x
+    //	t
+    roots
+`{ , }` // " ++ [27880; 37322]%N ++ runes_of_ascii "
+, @calculatedFrom( ""// no comment"" ) i64_
+a1,
+// packet A { u8 x, }
+/// triple
+f64
+    tag
+, }MetaData charz { string msg_type ,  roots x_y_z	, Z9_ chars`tab	here`
+    , packetx
+    u128 `// not a comment` , // c
+pack a1 ,} packet
+falsey {
+uint32 Foo ,
+}
+")).
+Eval vm_compute in ("<<<M558>>>" ++ check (runes_of_ascii "packet crc {
+// c
+//x
+@tag( 0 )
+    float64
+    falsey @calculatedFrom( ""packet""
+)
+, match x as matchKey
+    { 42: options1 0:  crc  ,  007 : u128 ,	} ,
+@calculatedFrom(""" ++ [233]%N ++ runes_of_ascii "t" ++ [233]%N ++ runes_of_ascii """ )repeat i8i8{ zchar[4294967296] x @lengthOf( As
+) ,
+repeat int32 a1
+,i32 x`" ++ [28040; 24687; 31867; 22411]%N ++ runes_of_ascii "` , },
+    int @lengthOf( metadata ) ,	repeat
+trueish, uint16 int , x_y_z @lengthOf( roots
+// `tick` ""quote"" 'q'
+//
+)`" ++ [28040; 24687; 31867; 22411]%N ++ runes_of_ascii "` , }
+// packet A { u8 x, }
+")).
+Eval vm_compute in ("<<<M207>>>" ++ check (runes_of_ascii "MetaData
+T { Foo  lengthOf , string
+    //x
+    packetx
+    `// not a comment` , zchar[
+    //	t
+    0] metadata
+//x
+// `tick` ""quote"" 'q'
+`crlf
+line` ,
+x string_
+`line1
+line2` , } packet repeatCount {	char[ // `tick` ""quote"" 'q'
+255 ]
+A @calculatedFrom(""a\\"" )
+,float32
+    BodyLength @lengthOf(	_x )
+// c
+//
+`doc` , char[] trueish
+    // " ++ [128512]%N ++ runes_of_ascii " emoji
+    @calculatedFrom( ""packet"")
     ,}
 ")).
-Eval vm_compute in ("<<<M916>>>" ++ check (runes_of_ascii "root packet lengthOf { int32 body@lengthOf( Z9_
-)
-    `// not a comment` ,}
-options { charz /// triple
-=
-    true }
-    packet
-asx { @tag(
-// `tick` ""quote"" 'q'
-// trailing space 
-255 ) msg_type
-// trailing space 
-// `tick` ""quote"" 'q'
-{ repeat
-crc	charz
-    //
-    ,} , }")).
-Eval vm_compute in ("<<<M3819>>>" ++ check (runes_of_ascii "options
+Eval vm_compute in ("<<<M4052>>>" ++ check (runes_of_ascii "MetaData  u	{
+}
 
-{i64_ =
+    options {  
+  // c
+  	// @lengthOf(@x
+    	float
+=int8
+;  rootA =
+false
+; As=
 
-""\n""
-;  BodyLength= float64
-    i64_
+int16// `tick` ""quote"" 'q'
+  repeatCount 
+    // trailing space 
+    	=
+
+    int16
+;
+u8x
 
     =
-    false
-	;
+        //	t
+	'\x00';
+}  options
+{
+repeatCount =0
+u128 
+        //
+    	=  false;
+	i64_
+    // trailing space 
 
-    }	MetaData
-	Packet{ uint16
-
-A	`u8 x,`
-	, zchar[
-
-    007  ]i64_
-
-    ,char[
-
-007	]
-	chars, float64 
-x_y_z
-	, MetaDataX
-stringy 
-`// not a comment`	, 
-}
-
-MetaData msg_type
-{}
-
-")).
-Eval vm_compute in ("<<<M1503>>>" ++ check (runes_of_ascii "packet
-//	t
-// trailing space 
-_x {
-// packet A { u8 x, }
-// c
-char[ char[
-3
-    ] u8x @lengthOf(
-u8x ) , @calculatedFrom(""" ++ [128512]%N ++ runes_of_ascii """ // @lengthOf(
-)
-i16	Foo
-@lengthOf(	string_
-    )`doc`	, repeat	i64 metadata , @lengthOf( string_
-) i8 // c
-u  `line1
-line2`	,
-}
-")).
-Eval vm_compute in ("<<<M1555>>>" ++ check (runes_of_ascii "packet
-//	t
-// trailing space 
-_x {
-// packet A { u8 x, }
-// c
-char[
-3
-    ] u8x @lengthOf(
-u8x ) , @calculatedFrom(""" ++ [128512]%N ++ runes_of_ascii """ // @lengthOf(
-i16
-i16	Foo
-@lengthOf(	string_
-    )`doc`	, repeat	i64 metadata , @lengthOf( string_
-) i8 // c
-u  `line1
-line2`	,
-}
-")).
-Eval vm_compute in ("<<<M636>>>" ++ check (runes_of_ascii "packet// packet A { u8 x, }
-As { @leftPad ( '\x00'
-    // @lengthOf(
-    )
-repeat
-// " ++ [128512]%N ++ runes_of_ascii " emoji
+// `tick` ""quote"" 'q'
+		= '0'
+    ;  //	t
+	  } ")).
+Eval vm_compute in ("<<<M1263>>>" ++ check (runes_of_ascii "packet	Z9_
+{
+    @lengthOf(pack )calculatedFrom //	t
+u128 , /// triple
+@tag( 4294967296 )
+u64 options1 ,	uint16	uint8x@calculatedFrom(
+""\n""  ), //
+} packet	pack{ leftPad
+MetaDataX , @leftPad
+( )@lengthOf( packetx	)
+repeat lengthOf { f64
+repeatCount
+    @calculatedFrom( ""a\""b"" ) `tab	here` ,
+}, repeat pack body ,} options {
+u128
 //
-pack,
-    } MetaData //x
-leftPad { uint8	tag ,
-i16 BodyLength /// triple
-`{ , }` , zchar[ 1	] u `say ""hi""`, u16 charz ,
-u32 packetx
-,
-rootA//
-body ,
-}")).
-Eval vm_compute in ("<<<M1619>>>" ++ check (runes_of_ascii "packet
 //	t
-// trailing space 
-_x {
-// packet A { u8 x, }
-// c
-char[
-3
-    ] u8x @lengthOf(
-u8x ) , @calculatedFrom(""" ++ [128512]%N ++ runes_of_ascii """ // @lengthOf(
-)
-i16	Foo
-@lengthOf(	string_
-    )`doc`	, repeat	i64 metadata , @lengthOf( )
-string_ i8 // c
-u  `line1
-line2`	,
-}
+=true ; }
 ")).
-Eval vm_compute in ("<<<M1627>>>" ++ check (runes_of_ascii "packet
-//	t
-// trailing space 
-_x {
-// packet A { u8 x, }
-// c
-char[
-3
-    ] u8x @lengthOf(
-u8x ) , @calculatedFrom(""" ++ [128512]%N ++ runes_of_ascii """ // @lengthOf(
-)
-i16	Foo
-@lengthOf(	string_
-    )`doc`	, repeat	i64 metadata , @lengthOf( string_
-)  // c
-u  `line1
-line2`	,
-}
-")).
-Eval vm_compute in ("<<<M4482>>>" ++ check (runes_of_ascii "MetaData BodyLength {
-    zchar[00] a1,
-    i64 A `" ++ [233]%N ++ runes_of_ascii "`,
-    int8 i8i8 `doc`,
-    char[1] Header ``,
+Eval vm_compute in ("<<<M4309>>>" ++ check (runes_of_ascii "root packet MetaDataX {
 }
 
 options {
-    asx = false;
-    T = ""CRC32""
-    u8x = ' '
-    float = 3
+    int = false
+    //	t
 }
 
-packet o {
-    @rightPad('0')
-    calculatedFrom `crlf
-    line`,
+packet falsey {
+    string tag `say ""hi""`,
+    leftPad stringy,
+    @calculatedFrom(""a	b"")
+    As @calculatedFrom(""packet"") `line1
+        line2`,
+    A @lengthOf(body),
+    @calculatedFrom(""" ++ [28040; 24687]%N ++ runes_of_ascii """)
+    calculatedFrom,
+    calculatedFrom @lengthOf(calculatedFrom) `tab	here`,
 }")).
-Eval vm_compute in ("<<<M720>>>" ++ check (runes_of_ascii "options {metadata
-    =
-char[
-    10]	tag= 007 ; stringy =0 ;x_y_z
-= true // a // b
-; }  root	packet o // " ++ [27880; 37322]%N ++ runes_of_ascii "
-{ @tag( // a // b
-3 ) @leftPad
-(
-'0' )
-@tag(
-// packet A { u8 x, }
-// a // b
-00 ) i64_  @lengthOf(
-    //
-    falsey	)	, }
-")).
-Eval vm_compute in ("<<<M3426>>>" ++ check (runes_of_ascii "// top
-packet // c0a
-  // c0b
-o { repeat
-    // c3
-Logon uint8x // c5
-,
-    // c6
-} options // c8
-{ // c9
-asx
-    // c10
-= // c11a
-  // c11b
-zchar[ // c12
-3
-    // c13
-] stringy // c15
+Eval vm_compute in ("<<<M586>>>" ++ check (runes_of_ascii "options{	i8i8 = 65535
+; asx/// triple
 =
-    // c16
-'\x00' // c17
+float64 charz	= ""`tick`"" As//
+=
+    7 ;
+    i8i8 = ""\n"" }
+// `tick` ""quote"" 'q'
+// " ++ [27880; 37322]%N ++ runes_of_ascii "
+packet u{ } options	{
+// packet A { u8 x, }
+/// triple
+f32a =10 chars // trailing space 
+=
+""\" ++ [233]%N ++ runes_of_ascii """ x =uint8 ;
+metadata =42 ;  lengthOf =true ;}
+    options {
+// " ++ [27880; 37322]%N ++ runes_of_ascii "
+// " ++ [128512]%N ++ runes_of_ascii " emoji
+BodyLength = true
+    ; }")).
+Eval vm_compute in ("<<<M2011>>>" ++ check (runes_of_ascii "MetaData
+    u { }  options {
+// c
+// @lengthOf(
+float = int8 ;rootA =false ; As =	int16 // `tick` ""quote"" 'q'
+repeatCount
+    // trailing space 
+    =
+    int16
+; u8x =
+    //	t
+    '\x00' ; } options	{
+    repeatCount
+= 0
+u128 u128
+    //
+    = false ; i64_
+// trailing space 
+// `tick` ""quote"" 'q'
+= '0' ; //	t
 }
-    // c18
 ")).
-Eval vm_compute in ("<<<M237>>>" ++ check (runes_of_ascii "packet Foo //	t
-{ match
-    // a // b
-    i64_ //x
-as
-x_y_z {65535:  BodyLength
+Eval vm_compute in ("<<<M1946>>>" ++ check (runes_of_ascii "MetaData
+    u { }  options {
+// c
+// @lengthOf(
+float = int8 ;rootA =false ; As =	int16 // `tick` ""quote"" 'q'
+repeatCount
+    // trailing space 
+    = =
+    int16
+; u8x =
+    //	t
+    '\x00' ; } options	{
+    repeatCount
+= 0
+u128
+    //
+    = false ; i64_
+// trailing space 
+// `tick` ""quote"" 'q'
+= '0' ; //	t
+}
+")).
+Eval vm_compute in ("<<<M2062>>>" ++ check (runes_of_ascii "MetaData
+    u { }  options {
+// c
+// @lengthOf(
+float = int8 ;rootA =false ; As =	int16 // `tick` ""quote"" 'q|'
+repeatCount
+    // trailing space 
+    =
+    int16
+; u8x =
+    //	t
+    '\x00' ; } options	{
+    repeatCount
+= 0
+u128
+    //
+    = false ; i64_
+// trailing space 
+// `tick` ""quote"" 'q'
+= '0' ; //	t
+}
+")).
+Eval vm_compute in ("<<<M1968>>>" ++ check (runes_of_ascii "MetaData
+    u { }  options {
+// c
+// @lengthOf(
+float = int8 ;rootA =false ; As =	int16 // `tick` ""quote"" 'q'
+repeatCount
+    // trailing space 
+    =
+    int16
+; u8x {
+    //	t
+    '\x00' ; } options	{
+    repeatCount
+= 0
+u128
+    //
+    = false ; i64_
+// trailing space 
+// `tick` ""quote"" 'q'
+= '0' ; //	t
+}
+")).
+Eval vm_compute in ("<<<M1920>>>" ++ check (runes_of_ascii "MetaData
+    u { }  options {
+// c
+// @lengthOf(
+float = int8 ;rootA =false  As =	int16 // `tick` ""quote"" 'q'
+repeatCount
+    // trailing space 
+    =
+    int16
+; u8x =
+    //	t
+    '\x00' ; } options	{
+    repeatCount
+= 0
+u128
+    //
+    = false ; i64_
+// trailing space 
+// `tick` ""quote"" 'q'
+= '0' ; //	t
+}
+")).
+Eval vm_compute in ("<<<M2010>>>" ++ check (runes_of_ascii "MetaData
+    u { }  options {
+// c
+// @lengthOf(
+float = int8 ;rootA =false ; As =	int16 // `tick` ""quote"" 'q'
+repeatCount
+    // trailing space 
+    =
+    int16
+; u8x =
+    //	t
+    '\x00' ; } options	{
+    repeatCount
+= 0
+
+    //
+    = false ; i64_
+// trailing space 
+// `tick` ""quote"" 'q'
+= '0' ; //	t
+}
+")).
+Eval vm_compute in ("<<<M1940>>>" ++ check (runes_of_ascii "MetaData
+    u { }  options {
+// c
+// @lengthOf(
+float = int8 ;rootA =false ; As =	int16 // `tick` ""quote"" 'q'
+
+    // trailing space 
+    =
+    int16
+; u8x =
+    //	t
+    '\x00' ; } options	{
+    repeatCount
+= 0
+u128
+    //
+    = false ; i64_
+// trailing space 
+// `tick` ""quote"" 'q'
+= '0' ; //	t
+}
+")).
+Eval vm_compute in ("<<<M3664>>>" ++ check (runes_of_ascii "  options { LittleEndian=
+
+    true
+    ;
+
+    }packet
+
+Logon
+{	u8 x	,  string 
+user
+
 ,
-[3, ""CRC32"" ]
-:u
-, 255:
-T ,[ ""x y""]	:leftPad ,0123456789: As ,
-    } ,
-    zchar[	1
-    ]int
-, } packet
-float
-    { uint16
-Packet	,}")).
-Eval vm_compute in ("<<<M1817>>>" ++ check (runes_of_ascii "options { trueish = ""`tick`"" ; string_= """ ++ [233]%N ++ runes_of_ascii "t" ++ [233]%N ++ runes_of_ascii """
+    } packet
+
+    Logout
+{u16
+	reason,
+
+    } packet	Empty
+{ } root 
+packet
+	Frame
+    {
+    u16 MsgType, u16
+
+    BodyLen @lengthOf( 
+Body
+) , u8 
+flags ,  Logon Body	, u32
+trailer
+
+    ,
+} ")).
+Eval vm_compute in ("<<<M3992>>>" ++ check (runes_of_ascii "packet roots {
+    @tag(255)
+    zchar[00] lengthOf `" ++ [233]%N ++ runes_of_ascii "`,
+    zchar[7] u `say ""hi""`,
+}
+
+options {
+}
+
+options {
+    calculatedFrom = 4294967296// " ++ [128512]%N ++ runes_of_ascii " emoji
+    i64_ = '\x00';
+    i64_ = ""abc"";
+}
+
+MetaData roots {
+    char[] BodyLength `two words`,
+    i16 Header `// not a comment`,
+}")).
+Eval vm_compute in ("<<<M1543>>>" ++ check (runes_of_ascii "packet
+//	t
+// trailing space 
+_x {
+// packet A { u8 x, }
+// c
+char[
+3
+    ] u8x @lengthOf(
+u8x ) , @calculatedFrom( @calculatedFrom(""" ++ [128512]%N ++ runes_of_ascii """ // @lengthOf(
+)
+i16	Foo
+@lengthOf(	string_
+    )`doc`	, repeat	i64 metadata , @lengthOf( string_
+) i8 // c
+u  `line1
+line2`	,
+}
+")).
+Eval vm_compute in ("<<<M1133>>>" ++ check (runes_of_ascii "options {// " ++ [27880; 37322]%N ++ runes_of_ascii "
+u= i16;
+a1
+=	' ' ; a1
+// `tick` ""quote"" 'q'
+// @lengthOf(
+=// " ++ [128512]%N ++ runes_of_ascii " emoji
+'0' leftPad= true} // trailing space 
+packet charz { @calculatedFrom( ""a	b"" ) @leftPad ( )  @lengthOf(// " ++ [128512]%N ++ runes_of_ascii " emoji
+chars
+    /// triple
+    ) chars { i16 x, // " ++ [128512]%N ++ runes_of_ascii " emoji
+} ,}
+
+")).
+Eval vm_compute in ("<<<M1558>>>" ++ check (runes_of_ascii "packet
+//	t
+// trailing space 
+_x {
+// packet A { u8 x, }
+// c
+char[
+3
+    ] u8x @lengthOf(
+u8x ) , @calculatedFrom(""" ++ [128512]%N ++ runes_of_ascii """ // @lengthOf(
+)
+i16 i16	Foo
+@lengthOf(	string_
+    )`doc`	, repeat	i64 metadata , @lengthOf( string_
+) i8 // c
+u  `line1
+line2`	,
+}
+")).
+Eval vm_compute in ("<<<M1657>>>" ++ check (runes_of_ascii "packet
+//	t
+// trailing space 
+_x {
+// packet A { u8 x, }
+// c
+char[
+3
+    ] u8x @lengthOf(
+u8x ) , @calculatedFrom(""" ++ [128512]%N ++ runes_of_ascii """ // @lengthOf(
+)
+i16	Foo
+@lengthOf(	string_
+    )`doc`	? , repeat	i64 metadata , @lengthOf( string_
+) i8 // c
+u  `line1
+line2`	,
+}
+")).
+Eval vm_compute in ("<<<M1524>>>" ++ check (runes_of_ascii "packet
+//	t
+// trailing space 
+_x {
+// packet A { u8 x, }
+// c
+char[
+3
+    ] u8x u8x
+@lengthOf( ) , @calculatedFrom(""" ++ [128512]%N ++ runes_of_ascii """ // @lengthOf(
+)
+i16	Foo
+@lengthOf(	string_
+    )`doc`	, repeat	i64 metadata , @lengthOf( string_
+) i8 // c
+u  `line1
+line2`	,
+}
+")).
+Eval vm_compute in ("<<<M745>>>" ++ check (runes_of_ascii "packet calculatedFrom { match
+    Logon as	u128 { [ 1 ,
+""// no comment"" ] : u8x ""`tick`"" : Header ,
+    ""`tick`"":
+    BodyLength ""it's""
+// a // b
+// packet A { u8 x, }
+: zchar
+} // " ++ [27880; 37322]%N ++ runes_of_ascii "
+, // `tick` ""quote"" 'q'
+char metadata @calculatedFrom( ""a\\"" ), }
+")).
+Eval vm_compute in ("<<<M1650>>>" ++ check (runes_of_ascii "packet
+//	t
+// trailing space 
+_x {
+// packet A { u8 x, }
+// c
+char[
+3
+    ] u8x @lengthOf(
+u8x ) , @calculatedFrom(""" ++ [128512]%N ++ runes_of_ascii """ // @lengthOf(
+)
+i16	Foo
+@lengthOf(	string_
+    )`doc`	, repeat	i64 metadata , @lengthOf( string_
+) i8 // c
+u  `line1
+line2`	,")).
+Eval vm_compute in ("<<<M1261>>>" ++ check (runes_of_ascii "options
+{  trueish  = f32
+;
+    i8i8 = false BodyLength  =
+// " ++ [27880; 37322]%N ++ runes_of_ascii "
+//	t
+float64
+stringy =
+string;Z9_= '\x00' } MetaData falsey { pack
+rootA,
+char[ 7]
+x_y_z `" ++ [233]%N ++ runes_of_ascii "` , uint32
+    string_ ,
+float64 //	t
+lengthOf// trailing space 
+,
+int32	u , }
+")).
+Eval vm_compute in ("<<<M361>>>" ++ check (runes_of_ascii "root
+packet
+f32a {
+trueish
+    falsey
+, tag , repeat
+    // trailing space 
+    Pad{ u32
+    i8i8 @calculatedFrom(""x y""
+    )
+, } ,@calculatedFrom( ""// no comment""  )@lengthOf( calculatedFrom
+    ) @tag(	65535)  string T,
+    }
+
+")).
+Eval vm_compute in ("<<<M2009>>>" ++ check (runes_of_ascii "MetaData
+    u { }  options {
+// c
+// @lengthOf(
+float = int8 ;rootA =false ; As =	int16 // `tick` ""quote"" 'q'
+repeatCount
+    // trailing space 
+    =
+    int16
+; u8x =
+    //	t
+    '\x00' ; } options	{
+    repeatCount
+=")).
+Eval vm_compute in ("<<<M4383>>>" ++ check (runes_of_ascii "root packet rootA {
+}
+
+root packet _x {
+    i64_,// a // b
+}
+
+MetaData options1 {
+    // `tick` ""quote"" 'q'
+    a1 float `crlf
+        line`,
+    u8x falsey `" ++ [233]%N ++ runes_of_ascii "`,
+    f32a MetaDataX,
+    int64 u8x,
+}
+
+packet f32a {
+}")).
+Eval vm_compute in ("<<<M1742>>>" ++ check (runes_of_ascii "options { trueish = ""`tick`"" ; string_= """ ++ [233]%N ++ runes_of_ascii "t" ++ [233]%N ++ runes_of_ascii """
     // c
     } root
-    packet body { stringy @calculatedFrom(
+    packet body { stringy stringy @calculatedFrom(
 ""a	b"" ) `line1
 line2` , }
 packet Logon {
     @leftPad(
     ' ' ) //	t
-u16 string_ string_ `u8 x,` ,
+u16 string_ `u8 x,` ,
 }
 ")).
-Eval vm_compute in ("<<<M1802>>>" ++ check (runes_of_ascii "options { trueish = ""`tick`"" ; string_= """ ++ [233]%N ++ runes_of_ascii "t" ++ [233]%N ++ runes_of_ascii """
+Eval vm_compute in ("<<<M1769>>>" ++ check (runes_of_ascii "options { trueish = ""`tick`"" ; string_= """ ++ [233]%N ++ runes_of_ascii "t" ++ [233]%N ++ runes_of_ascii """
     // c
     } root
     packet body { stringy @calculatedFrom(
 ""a	b"" ) `line1
-line2` , }
+line2` char[ }
 packet Logon {
     @leftPad(
-    ' ' ' ' ) //	t
+    ' ' ) //	t
 u16 string_ `u8 x,` ,
 }
 ")).
@@ -2053,7 +2052,7 @@ packet Logon {
 u16 string_ `u8 x,` ,
 }
 ")).
-Eval vm_compute in ("<<<M1696>>>" ++ check (runes_of_ascii "options { trueish = ""`tick`""  string_= """ ++ [233]%N ++ runes_of_ascii "t" ++ [233]%N ++ runes_of_ascii """
+Eval vm_compute in ("<<<M1686>>>" ++ check (runes_of_ascii "options { trueish  ""`tick`"" ; string_= """ ++ [233]%N ++ runes_of_ascii "t" ++ [233]%N ++ runes_of_ascii """
     // c
     } root
     packet body { stringy @calculatedFrom(
@@ -2077,32 +2076,12 @@ packet Logon {
 u16 string_ `u8 x,` ,
 }
 ")).
-Eval vm_compute in ("<<<M4377>>>" ++ check (runes_of_ascii "root
-packet
-
-u128
-
-{ char[
-7
-    ] tag
-@calculatedFrom(""\" ++ [233]%N ++ runes_of_ascii """
-    )  // " ++ [128512]%N ++ runes_of_ascii " emoji
-		`" ++ [233]%N ++ runes_of_ascii "`,
-@rightPad(	)
-
-packetx, 
-@lengthOf(
-
-o
-    )
-	lengthOf
-@lengthOf( float
-
-    ) 
-`// not a comment`
-,
-    }
-")).
+Eval vm_compute in ("<<<M914>>>" ++ check (runes_of_ascii "/// triple
+options {
+    // packet A { u8 x, }
+    Foo = 00 ; } root packet	string_ {u32 falsey	@calculatedFrom( ""x y"" )
+`u8 x,`	,} root packet // `tick` ""quote"" 'q'
+T { } // `tick` ""quote"" 'q'")).
 Eval vm_compute in ("<<<M389>>>" ++ check (runes_of_ascii "options
 { u128// packet A { u8 x, }
 =
@@ -2129,95 +2108,103 @@ repeat zchar[0
 ]  repeatCount
 , }
 ")).
-Eval vm_compute in ("<<<M341>>>" ++ check (runes_of_ascii "packet A
-    { @rightPad (' '
-    )/// triple
-@calculatedFrom(""" ++ [233]%N ++ runes_of_ascii "t" ++ [233]%N ++ runes_of_ascii """	) int16
-    crc
-`tab	here` // " ++ [128512]%N ++ runes_of_ascii " emoji
-, }  MetaData x
+Eval vm_compute in ("<<<M545>>>" ++ check (runes_of_ascii "root packet Z9_ { repeatCount
+    `a\`
+,char[ 255 ]Pad`" ++ [28040; 24687; 31867; 22411]%N ++ runes_of_ascii "`
+    // " ++ [27880; 37322]%N ++ runes_of_ascii "
+    ,  char[ // c
+0
+] calculatedFrom `it's` , MetaDataX msg_type`line1
+line2`, }
+// packet A { u8 x, }
+")).
+Eval vm_compute in ("<<<M329>>>" ++ check (runes_of_ascii "packet
+pack
+    { pack calculatedFrom, len, u16	T,
+@lengthOf( trueish) repeat
+leftPad ,
+@calculatedFrom( """ ++ [233]%N ++ runes_of_ascii "t" ++ [233]%N ++ runes_of_ascii """	) @rightPad	( '0' ) f64 a1,repeat
+trueish Header , } 	 ")).
+Eval vm_compute in ("<<<M250>>>" ++ check (runes_of_ascii "packet tag
+{@rightPad( )	zchar[ 00
+    //x
+    ] //x
+MetaDataX `" ++ [233]%N ++ runes_of_ascii "` ,
+    float32 Header `say ""hi""`
+// " ++ [128512]%N ++ runes_of_ascii " emoji
 // `tick` ""quote"" 'q'
-// " ++ [27880; 37322]%N ++ runes_of_ascii "
-{
-}
-// trailing space 
-")).
-Eval vm_compute in ("<<<M1969>>>" ++ check (runes_of_ascii "MetaData
-    u { }  options {
-// c
-// @lengthOf(
-float = int8 ;rootA =false ; As =	int16 // `tick` ""quote"" 'q'
-repeatCount
-    // trailing space 
-    =
-    int16
-; u8x")).
-Eval vm_compute in ("<<<M1007>>>" ++ check (runes_of_ascii "options  { x_y_z
-= uint32
-    ; x
-= false ;len
-= 0//
-; }
-root packet trueish {
-    // `tick` ""quote"" 'q'
-    @tag( 42// packet A { u8 x, }
-) matchKey string_,
-}
-")).
-Eval vm_compute in ("<<<M2160>>>" ++ check (runes_of_ascii "options{
+, } MetaData
+T{int lengthOf  ,}")).
+Eval vm_compute in ("<<<M2204>>>" ++ check (runes_of_ascii "options{
 _x
 = true
 } options
 { o	= /// triple
 false
     ; chars
-= ""\n"" } root packet packet	Pad
+= ""\n"" } root packet	Pad
+/// triple@leftpad
+// packet A { u8 x, }
+{	chars
+    // a // b
+    ,}")).
+Eval vm_compute in ("<<<M2366>>>" ++ check (runes_of_ascii "// c
+packet x { @lengthOf( metadata ) repeat lengthOf
+,a1 a1{
+trueish	,// c
+repeat//	t
+MetaDataX , } , zchar[
+    42	] rootA // `tick` ""quote"" 'q'
+,
+    }
+")).
+Eval vm_compute in ("<<<M2142>>>" ++ check (runes_of_ascii "options{
+_x
+= true
+} options
+{ o	= /// triple
+false
+    ; chars
+root ""\n"" } root packet	Pad
 /// triple
 // packet A { u8 x, }
 {	chars
     // a // b
     ,}")).
-Eval vm_compute in ("<<<M2388>>>" ++ check (runes_of_ascii "// c
+Eval vm_compute in ("<<<M2311>>>" ++ check (runes_of_ascii "// c
 packet x { @lengthOf( metadata ) repeat lengthOf
 ,a1{
 trueish	,// c
 repeat//	t
-MetaDataX , } , zchar[
-    42	true rootA // `tick` ""quote"" 'q'
+MetaDataX , } , 42
+    zchar[	] rootA // `tick` ""quote"" 'q'
 ,
     }
 ")).
-Eval vm_compute in ("<<<M2342>>>" ++ check (runes_of_ascii "// c
+Eval vm_compute in ("<<<M2339>>>" ++ check (runes_of_ascii "// c
 packet x { @lengthOf( metadata ) repeat lengthOf
-,a1${
+,a1{
 trueish	,// c
 repeat//	t
-MetaDataX , } , zchar[
+MetaDataX , }  zchar[
     42	] rootA // `tick` ""quote"" 'q'
 ,
     }
 ")).
-Eval vm_compute in ("<<<M2363>>>" ++ check (runes_of_ascii "// c
-packet x { @lengthOf( metadata ) repeat lengthOf
-a1,{
-trueish	,// c
-repeat//	t
-MetaDataX , } , zchar[
-    42	] rootA // `tick` ""quote"" 'q'
-,
-    }
-")).
-Eval vm_compute in ("<<<M2395>>>" ++ check (runes_of_ascii "// c
-packet x { @lengthOf( metadata ) repeat lengthOf
-a1{
-trueish	,// c
-repeat//	t
-MetaDataX , } , zchar[
-    42	] rootA // `tick` ""quote"" 'q'
-,
-    }
-")).
-Eval vm_compute in ("<<<M2181>>>" ++ check (runes_of_ascii "options{
+Eval vm_compute in ("<<<M2151>>>" ++ check (runes_of_ascii "options{
+_x
+= true
+} options
+{ o	= /// triple
+false
+    ; chars
+= ""\n"" root } packet	Pad
+/// triple
+// packet A { u8 x, }
+{	chars
+    // a // b
+    ,}")).
+Eval vm_compute in ("<<<M2184>>>" ++ check (runes_of_ascii "options{
 _x
 = true
 } options
@@ -2229,370 +2216,374 @@ false
 // packet A { u8 x, }
 {	chars
     // a // b
-    },")).
-Eval vm_compute in ("<<<M3783>>>" ++ check (runes_of_ascii "
-root packet
-matchKey{
-
-zchar[3
-
-    ]	pack  @calculatedFrom(
-
-    ""a	b"" )
-    `doc`
-
-,}	options
-{ } MetaData A
-{ int8
-
-msg_type// c
-    ,
-    }")).
-Eval vm_compute in ("<<<M623>>>" ++ check (runes_of_ascii "packet x_y_z {
-@lengthOf(
-roots
-) u32  Pad `{ , }` ,
-    // packet A { u8 x, }
-    repeat body{ repeat
-    body roots `line1
-line2` , }
-    ,
-}
-
-")).
-Eval vm_compute in ("<<<M743>>>" ++ check (runes_of_ascii "
-MetaData
-    A{ calculatedFrom
-falsey `line1
-line2` , //x
-char[ 255 ]T
-    `
-` , float32 Logon ,
-    stringy
-i8i8 ,
-char[]rootA
-`{ , }` , }
-")).
-Eval vm_compute in ("<<<M565>>>" ++ check (runes_of_ascii "
-packet T {
-@leftPad ( )
-@calculatedFrom(""" ++ [233]%N ++ runes_of_ascii "t" ++ [233]%N ++ runes_of_ascii """ ) msg_type // trailing space 
-@lengthOf( i8i8
-)`a\`
-    ,
-// `tick` ""quote"" 'q'
-// " ++ [128512]%N ++ runes_of_ascii " emoji
-}")).
-Eval vm_compute in ("<<<M3925>>>" ++ check (runes_of_ascii "MetaData matchKey {
-    u calculatedFrom,
-}
-
-root packet u128 {
-    string BodyLength @lengthOf(u8x),
-    int @lengthOf(f32a) `" ++ [28040; 24687; 31867; 22411]%N ++ runes_of_ascii "`,
-}")).
-Eval vm_compute in ("<<<M3838>>>" ++ check (runes_of_ascii "// top
-packet Inner {
-    u8 a,// c5
-}
-
-root packet P {
-    // c10
-    Inner ref_obj,// c13a
-    // c13b
-    u8 x,// c16a
-}// c17")).
-Eval vm_compute in ("<<<M254>>>" ++ check (runes_of_ascii "packet rootA {	}
-// `tick` ""quote"" 'q'
+    ,")).
+Eval vm_compute in ("<<<M2144>>>" ++ check (runes_of_ascii "options{
+_x
+= true
+} options
+{ o	= /// triple
+false
+    ; chars
+=  } root packet	Pad
 /// triple
-options  {stringy
-    =
-0123456789
-;
-T =42 ;
-string_ = ""a\""b""
-    ; }
-//
+// packet A { u8 x, }
+{	chars
+    // a // b
+    ,}")).
+Eval vm_compute in ("<<<M130>>>" ++ check (runes_of_ascii "  packet x_y_z	{ @tag( // c
+00
+//x
+// packet A { u8 x, }
+)
+@tag(// " ++ [27880; 37322]%N ++ runes_of_ascii "
+7 ) @leftPad ( ) int16 _x @lengthOf( u ) `it's` // `tick` ""quote"" 'q'
+, }
 ")).
-Eval vm_compute in ("<<<M1483>>>" ++ check (runes_of_ascii "
-packet
-    falsey { Header@calculatedFrom(""packet""  ) @tag , char[
-    0123456789 ] packetx
-    , } // `tick` ""quote"" 'q'")).
-Eval vm_compute in ("<<<M3327>>>" ++ check (runes_of_ascii "root packet matchKey { zchar[ 3 ] pack
-// c
-@calculatedFrom( ""a	b"" ) `doc` , } options { } MetaData A { int8 msg_type , }")).
-Eval vm_compute in ("<<<M4467>>>" ++ check (runes_of_ascii "packet A {
-    Inner {
-        u8 x `a
-        b`,
-        Deep {
-            u8 y `a
-            b`,
-        },
-    },
-}")).
-Eval vm_compute in ("<<<M1484>>>" ++ check (runes_of_ascii "
-packet
-    falsey { Header@calculatedFrom(""packet""  ) , char[
-    0123456789 ] packetx
-    , } // `tick` ""quote""? 'q'")).
-Eval vm_compute in ("<<<M629>>>" ++ check (runes_of_ascii "
-options
-{stringy= 7
-    ;
-    float = 0 ;tag //	t
-=	42
-    charz =
-char[ 00
-    ] msg_type = ""CRC32"" } /// triple")).
-Eval vm_compute in ("<<<M1049>>>" ++ check (runes_of_ascii "root
-    packet u {
-    @leftPad (	' '
-    // packet A { u8 x, }
-    ) char[	7 ] msg_type @lengthOf( Header) , }
-")).
-Eval vm_compute in ("<<<M904>>>" ++ check (runes_of_ascii "packet uint8x {
-    repeat // c
-repeatCount { Packet
-@calculatedFrom( ""packet"" ) , } , // packet A { u8 x, }
-}")).
-Eval vm_compute in ("<<<M4540>>>" ++ check (runes_of_ascii "  packet
-metadata
+Eval vm_compute in ("<<<M3916>>>" ++ check (runes_of_ascii "packet
 
+    A
 {
-Logon 
-{ A `" ++ [28040; 24687; 31867; 22411]%N ++ runes_of_ascii "`
+
+match
+
+    k as
+    n
+{[	""a""
+
+,
+""bb"" ,	007,
+	""d"" , ""e""
+
     ,
 
-tag o
-    ,	// c
-      } ,zchar len`// not a comment`
-,	}
+66 ,
+""g"" 
+, ""h"" , 
+9
+, ""j""	]  :
+    B
+    ,2 
+:C}	, 
+}")).
+Eval vm_compute in ("<<<M4104>>>" ++ check (runes_of_ascii "packet A
+	{  u16 len
+    @lengthOf(  body
+
+) `a
+b`
+, u32
+
+    crc @calculatedFrom(
+
+    ""CRC32"" )
+
+    `a
+b`
+, string body , }
 
 ")).
-Eval vm_compute in ("<<<M3186>>>" ++ check (runes_of_ascii "// top
-root // c0
+Eval vm_compute in ("<<<M619>>>" ++ check (runes_of_ascii "packet u {
+    uint16 // a // b
+chars  `" ++ [28040; 24687; 31867; 22411]%N ++ runes_of_ascii "`	,// `tick` ""quote"" 'q'
+} root	packet T
+{	leftPad
+Foo `" ++ [28040; 24687; 31867; 22411]%N ++ runes_of_ascii "`
+    ,
+}
+// @lengthOf(
+")).
+Eval vm_compute in ("<<<M3789>>>" ++ check (runes_of_ascii "MetaData roots {
+    As asx,
+    char[1] roots,
+    // c
+    char[007] matchKey,/// triple
+    zchar[1] len,
+    x_y_z u128,
+}")).
+Eval vm_compute in ("<<<M3185>>>" ++ check (runes_of_ascii "// top
+root
+    // c0
 packet
     // c1
-u128 // c2a
-  // c2b
+u128
+    // c2
 {
     // c3
 chars
     // c4
-`it's` , }
+`it's`
+    // c5
+,
+    // c6
+}
     // c7
 ")).
-Eval vm_compute in ("<<<M3963>>>" ++ check (runes_of_ascii "MetaData	falsey {
+Eval vm_compute in ("<<<M3321>>>" ++ check (runes_of_ascii "root packet matchKey { zchar[
+// c
+3 ] pack @calculatedFrom( ""a	b"" ) `doc` , } options { } MetaData A { int8 msg_type , }")).
+Eval vm_compute in ("<<<M3353>>>" ++ check (runes_of_ascii "root packet matchKey { zchar[ 3 ] pack @calculatedFrom( ""a	b"" ) `doc` , } options { } MetaData A { int8
+// c
+msg_type , }")).
+Eval vm_compute in ("<<<M1472>>>" ++ check (runes_of_ascii "
+packet
+    falsey { Header@calculatedFrom(""packet""  ) , char[
+    0123456789 ] packetx
+    , } // `tick` ""quote""" ++ [0]%N ++ runes_of_ascii " 'q'")).
+Eval vm_compute in ("<<<M1440>>>" ++ check (runes_of_ascii "
+packet
+    falsey { Header@calculatedFrom(""packet""  ) , ""{,}""
+    0123456789 ] packetx
+    , } // `tick` ""quote"" 'q'")).
+Eval vm_compute in ("<<<M626>>>" ++ check (runes_of_ascii "packet i8i8 { } packet options1{
+    @lengthOf( uint8x
+    ) pack @lengthOf(MetaDataX
+) // c
+, uint8x `say ""hi""`, }")).
+Eval vm_compute in ("<<<M1455>>>" ++ check (runes_of_ascii "
+packet
+    falsey { Header@calculatedFrom(""packet""  ) , char[
+    0123456789 ] (
+    , } // `tick` ""quote"" 'q'")).
+Eval vm_compute in ("<<<M2994>>>" ++ check (runes_of_ascii "packet A {
+  match k as n {
+    [""a"", 22, ""c c"", 4, ""e"", 66, ""g"", 8, ""i"", 10, ""k"", 12] : B,
+    2 : C
+  },
+}")).
+Eval vm_compute in ("<<<M883>>>" ++ check (runes_of_ascii "options /// triple
+{
+    asx ='\x00' ;
+    }
+    //	t
+    options
+{ pack =""CRC32""
+;} root packet
+f32a { }")).
+Eval vm_compute in ("<<<M1318>>>" ++ check (runes_of_ascii "options	{ string_ // " ++ [128512]%N ++ runes_of_ascii " emoji
+= false ; } options { options1
+= '\x00' falsey=
+10 tag/// triple
+=65535}
+")).
+Eval vm_compute in ("<<<M2980>>>" ++ check (runes_of_ascii "packet A {
+  match k as n {
+    [1, ""bb"", 007, ""d"", 5, ""f"", 7, ""h"", 9, ""j"", 11] : B
+    2 : C
+  },
+}")).
+Eval vm_compute in ("<<<M136>>>" ++ check (runes_of_ascii "MetaData
+options1
+    {
+    char[ 7 ] i8i8
+, zchar[ 65535
+] u128
+    , char[]  repeatCount
+,
+}
+")).
+Eval vm_compute in ("<<<M2955>>>" ++ check (runes_of_ascii "packet A {
+  match k as n {
+    [""a"", 22, ""c c"", 4, ""e"", 66, ""g"", 8, ""i""] : B,
+    2 : C
+  },
+}")).
+Eval vm_compute in ("<<<M3881>>>" ++ check (runes_of_ascii "
+options {a  =  true ;
+b =
+	false
+
+    ;c =
+
+    '0' ;
+	d
+=
+    ""s""
+; 
+e
+= 
+007 ;
+	}
+")).
+Eval vm_compute in ("<<<M4549>>>" ++ check (runes_of_ascii "options {
+    zchar = 007
+    Header = char[007];
+    lengthOf = char[7];
+    chars = """";
+}")).
+Eval vm_compute in ("<<<M3269>>>" ++ check (runes_of_ascii "MetaData // c
+float { float64 charz `
+` , } root packet chars { @rightPad ( '0' ) Foo , }")).
+Eval vm_compute in ("<<<M3301>>>" ++ check (runes_of_ascii "MetaData float { float64 charz `
+` , } root packet chars { @rightPad ( '0' ) Foo // c
+, }")).
+Eval vm_compute in ("<<<M3512>>>" ++ check (runes_of_ascii "packet chars { } packet MetaDataX { @tag( 42 ) i16 string_ , repeat
+// c
+x `say ""hi""` , }")).
+Eval vm_compute in ("<<<M370>>>" ++ check (runes_of_ascii "MetaData falsey {
 //x
-  //	t
-    char[ /// triple
-    65535
-] 
-Packet
-	`{ , }`	, // @lengthOf(
-}  //x
-")).
-Eval vm_compute in ("<<<M379>>>" ++ check (runes_of_ascii "options{zchar=	true
+//	t
+char[ /// triple
+65535]Packet `{ , }` , // @lengthOf(
+} //x")).
+Eval vm_compute in ("<<<M817>>>" ++ check (runes_of_ascii "  packet
+    stringy  {
+@lengthOf(crc
+) string repeatCount @calculatedFrom(""{,}"" )
+, }")).
+Eval vm_compute in ("<<<M3220>>>" ++ check (runes_of_ascii "packet metadata { Logon
 // c
-/// triple
-BodyLength  = char[]
-; x// " ++ [27880; 37322]%N ++ runes_of_ascii "
-=  char[007 ]
-    ;} /// triple")).
-Eval vm_compute in ("<<<M2989>>>" ++ check (runes_of_ascii "packet A {
+{ A `" ++ [28040; 24687; 31867; 22411]%N ++ runes_of_ascii "` , tag o , } , zchar len `// not a comment` , }")).
+Eval vm_compute in ("<<<M1015>>>" ++ check (runes_of_ascii "// trailing space 
+packet Pad  {
+@lengthOf( asx
+    ) repeat
+char[ 3
+    ] u128 ,
+}
+")).
+Eval vm_compute in ("<<<M3443>>>" ++ check (runes_of_ascii "packet o { repeat Logon uint8x , } // c
+options { asx = zchar[ 3 ] stringy = '\x00' }")).
+Eval vm_compute in ("<<<M2950>>>" ++ check (runes_of_ascii "packet A {
   match k as n {
-    [1, 22, 007, 4, 5, 66, 7, 8, 9, 10, 11, 12] : B
+    [1, 22, 007, 4, 5, 66, 7, 8, 9] : B
     2 : C
   },
 }")).
-Eval vm_compute in ("<<<M609>>>" ++ check (runes_of_ascii "packet float	{i64 u8x @lengthOf(
-    //x
-    leftPad ) // packet A { u8 x, }
-`line1
-line2`
-,}")).
-Eval vm_compute in ("<<<M2742>>>" ++ check (runes_of_ascii "zchar[ [ """" char[] match i32 @lengthOf( uint16 char[] @lengthOf( i64 @lengthOf( string int8")).
-Eval vm_compute in ("<<<M2933>>>" ++ check (runes_of_ascii "packet A {
-  match k as n {
-    [""a"", ""bb"", 007, ""d"", ""e"", 66, ""g""] : B,
-    2 : C
-  },
-}")).
-Eval vm_compute in ("<<<M3295>>>" ++ check (runes_of_ascii "MetaData float { float64 charz `
-` , } root packet chars { @rightPad ( // c
-'0' ) Foo , }")).
-Eval vm_compute in ("<<<M3506>>>" ++ check (runes_of_ascii "packet chars { } packet MetaDataX { @tag( 42 ) i16
+Eval vm_compute in ("<<<M1939>>>" ++ check (runes_of_ascii "MetaData
+    u { }  options {
 // c
-string_ , repeat x `say ""hi""` , }")).
-Eval vm_compute in ("<<<M2746>>>" ++ check (runes_of_ascii "`// not a comment` true ' ' ; packet i8 int8 @calculatedFrom( string u32 = string char[]")).
-Eval vm_compute in ("<<<M3832>>>" ++ check (runes_of_ascii "packet A {
-    match k as n {
-        [1, 22, 4, 5, ""c c""] : B,
-        2 : C,
-    },
-}")).
-Eval vm_compute in ("<<<M3213>>>" ++ check (runes_of_ascii "packet // c
-metadata { Logon { A `" ++ [28040; 24687; 31867; 22411]%N ++ runes_of_ascii "` , tag o , } , zchar len `// not a comment` , }")).
-Eval vm_compute in ("<<<M3245>>>" ++ check (runes_of_ascii "packet metadata { Logon { A `" ++ [28040; 24687; 31867; 22411]%N ++ runes_of_ascii "` , tag o , } , zchar len `// not a comment` , // c
-}")).
-Eval vm_compute in ("<<<M3433>>>" ++ check (runes_of_ascii "packet o { // c
-repeat Logon uint8x , } options { asx = zchar[ 3 ] stringy = '\x00' }")).
-Eval vm_compute in ("<<<M3530>>>" ++ check (runes_of_ascii "options {
-    LittleEndian = true;
-}
-root packet P {
-    repeat char cs,
-    u8 x,
-}
-")).
-Eval vm_compute in ("<<<M3393>>>" ++ check (runes_of_ascii "
-// c
-MetaData body { i64 pack `it's` , } packet stringy { int16 calculatedFrom , }")).
-Eval vm_compute in ("<<<M3410>>>" ++ check (runes_of_ascii "MetaData body { i64 pack `it's` , } packet // c
-stringy { int16 calculatedFrom , }")).
+// @lengthOf(
+float = int8 ;rootA =false ; As =")).
+Eval vm_compute in ("<<<M3418>>>" ++ check (runes_of_ascii "MetaData body { i64 pack `it's` , } packet stringy { int16 calculatedFrom // c
+, }")).
 Eval vm_compute in ("<<<M2224>>>" ++ check (runes_of_ascii "options
 { } [ { BodyLength= u16 Header= f64 ; u128 =
     true
     ; } // a // b")).
-Eval vm_compute in ("<<<M2924>>>" ++ check (runes_of_ascii "packet A {
-  match k as n {
-    [1, 22, 007, 4, 5, 66, 7] : B
-    2 : C
-  },
-}")).
-Eval vm_compute in ("<<<M2697>>>" ++ check (runes_of_ascii "( packet char[] { int32 ""`tick`"" i8 MetaData int64 zchar[ string char root")).
-Eval vm_compute in ("<<<M882>>>" ++ check (runes_of_ascii "packet// " ++ [27880; 37322]%N ++ runes_of_ascii "
-pack {
-    //	t
-    repeat zchar As
-    , i16 roots ,
-    }")).
-Eval vm_compute in ("<<<M30>>>" ++ check (runes_of_ascii "MetaData
-T {crc /// triple
-u8x `say ""hi""` , } // `tick` ""quote"" 'q'")).
-Eval vm_compute in ("<<<M3026>>>" ++ check (runes_of_ascii "packet A {
-    B b `a
+Eval vm_compute in ("<<<M1929>>>" ++ check (runes_of_ascii "MetaData
+    u { }  options {
+// c
+// @lengthOf(
+float = int8 ;rootA =false ;")).
+Eval vm_compute in ("<<<M2289>>>" ++ check (runes_of_ascii "options
+{ } options { BodyLength= u16 Header= f64 ; u128 =
+    true
+    ;")).
+Eval vm_compute in ("<<<M4005>>>" ++ check (runes_of_ascii "
 
-b`,
-    B `a
+  MetaData lengthOf
+{
+    uint32  T `crlf
+line`
+,
 
-b`,
-    repeat B bs `a
-
-b`,
-}")).
-Eval vm_compute in ("<<<M596>>>" ++ check (runes_of_ascii "packet falsey { @tag(
-    1 ) repeat zchar[00
-    ] tag,
+    }
+/// triple")).
+Eval vm_compute in ("<<<M2851>>>" ++ check (runes_of_ascii "@lengthOf( int8 , MetaData repeat @lengthOf( f32 root repeat '\x00' ]")).
+Eval vm_compute in ("<<<M608>>>" ++ check (runes_of_ascii "root packet
+    f32a
+    { @tag( 42
+    ) char
+Header `
+`	,
     }
 ")).
-Eval vm_compute in ("<<<M842>>>" ++ check (runes_of_ascii "  root packet crc{ string uint8x
-//x
-// " ++ [128512]%N ++ runes_of_ascii " emoji
-`" ++ [233]%N ++ runes_of_ascii "` ,}
-// " ++ [27880; 37322]%N ++ runes_of_ascii "
+Eval vm_compute in ("<<<M158>>>" ++ check (runes_of_ascii "options { x_y_z =
+true;a1 = true ;
+options1  =
+    true  ; }
 ")).
-Eval vm_compute in ("<<<M498>>>" ++ check (runes_of_ascii "options
-{
-//x
-// c
-} options
-    {
-Foo
-    = ""`tick`"" }
+Eval vm_compute in ("<<<M4160>>>" ++ check (runes_of_ascii "packet x {
+    @rightPad()
+    repeat roots Logon `doc`,
+}// c")).
+Eval vm_compute in ("<<<M3387>>>" ++ check (runes_of_ascii "packet x { @rightPad ( ) repeat roots Logon `doc` , } // c
 ")).
-Eval vm_compute in ("<<<M3385>>>" ++ check (runes_of_ascii "packet x { @rightPad ( ) repeat roots Logon `doc` , // c
-}")).
-Eval vm_compute in ("<<<M3773>>>" ++ check (runes_of_ascii "MetaData
-	charz
-	{ 
+Eval vm_compute in ("<<<M3377>>>" ++ check (runes_of_ascii "packet x { @rightPad ( ) repeat // c
+roots Logon `doc` , }")).
+Eval vm_compute in ("<<<M4263>>>" ++ check (runes_of_ascii "
+// top
+    	MetaData// c0
+  o  // c1
+  { 
+} 
+// c3
+ 
+")).
+Eval vm_compute in ("<<<M3529>>>" ++ check (runes_of_ascii "root packet P
+	{
 
-//
-  //	t
-f32a
+    repeat char cs, u8 x
 
-    stringy,
-}")).
-Eval vm_compute in ("<<<M3806>>>" ++ check (runes_of_ascii "packet A {
-    u8 x `a
-            b
-          c`,
-}")).
+,  }
+
+")).
 Eval vm_compute in ("<<<M616>>>" ++ check (runes_of_ascii "// packet A { u8 x, }
 MetaData
     matchKey	{	}
 ")).
-Eval vm_compute in ("<<<M3705>>>" ++ check (runes_of_ascii "
-MetaData
-M
-{ u8
-x `a
-b`
-,  T t 
-`a
-b`
-
-,	} ")).
-Eval vm_compute in ("<<<M2600>>>" ++ check (runes_of_ascii "packet A { repeat B { C { u8 x, }, D d, }, }")).
-Eval vm_compute in ("<<<M4023>>>" ++ check (runes_of_ascii "options {
-	Logon  
-      //x
-    =
-' ';}
-
+Eval vm_compute in ("<<<M2847>>>" ++ check (runes_of_ascii "zchar[ i64 repeat ) false ) char[ repeat char[")).
+Eval vm_compute in ("<<<M3052>>>" ++ check (runes_of_ascii "options {
+    a = ""x\
+y"";
+    b = ""x\
+y""
+}")).
+Eval vm_compute in ("<<<M1081>>>" ++ check (runes_of_ascii "packet // packet A { u8 x, }
+rootA
+{
+}")).
+Eval vm_compute in ("<<<M3199>>>" ++ check (runes_of_ascii "root packet u128 { chars `it's` // c
+, }")).
+Eval vm_compute in ("<<<M3055>>>" ++ check (runes_of_ascii "options {
+    a = ""\
+"";
+    b = ""\
+""
+}")).
+Eval vm_compute in ("<<<M3165>>>" ++ check (runes_of_ascii "options { a = 1; // a
+ b = 2 // b
+ }")).
+Eval vm_compute in ("<<<M2128>>>" ++ check (runes_of_ascii "options{
+_x
+= true
+} options
+{ o	=")).
+Eval vm_compute in ("<<<M2834>>>" ++ check (runes_of_ascii "dxT`3-=WNaxe4?ugHL<=^O4.Z~pd=^ii}")).
+Eval vm_compute in ("<<<M2625>>>" ++ check (runes_of_ascii "packet A { @leftPad('0' u8 x, }")).
+Eval vm_compute in ("<<<M3102>>>" ++ check (runes_of_ascii "packet A {
+ u8 x `d" ++ [8233]%N ++ runes_of_ascii "`, // c" ++ [8233]%N ++ runes_of_ascii "
+}")).
+Eval vm_compute in ("<<<M2590>>>" ++ check (runes_of_ascii "packet A { x @lengthOf(3), }")).
+Eval vm_compute in ("<<<M4258>>>" ++ check (runes_of_ascii "
+// c" ++ [8202]%N ++ runes_of_ascii "
+  packet 
+A {
+    } ")).
+Eval vm_compute in ("<<<M2766>>>" ++ check (runes_of_ascii "root u8 @tag( ) @rightPad")).
+Eval vm_compute in ("<<<M3168>>>" ++ check (runes_of_ascii "packet A { // a
+ u8 x, }")).
+Eval vm_compute in ("<<<M285>>>" ++ check (runes_of_ascii "MetaData leftPad {
+}
 ")).
-Eval vm_compute in ("<<<M3194>>>" ++ check (runes_of_ascii "root packet u128
-// c
-{ chars `it's` , }")).
-Eval vm_compute in ("<<<M2619>>>" ++ check (runes_of_ascii "packet A { match k as n { '0' : B }, }")).
-Eval vm_compute in ("<<<M2821>>>" ++ check ([65533; 1912; 65533; 1; 65533; 21]%N ++ runes_of_ascii "TV" ++ [65533; 65533; 65533]%N ++ runes_of_ascii "'" ++ [65533]%N ++ runes_of_ascii "p_" ++ [22; 65533; 65533; 65533; 65533; 65533; 65533]%N ++ runes_of_ascii "T=%3" ++ [65533]%N ++ runes_of_ascii "ZHz" ++ [28; 22; 1]%N ++ runes_of_ascii "r" ++ [65533; 65533]%N)).
-Eval vm_compute in ("<<<M4325>>>" ++ check (runes_of_ascii "packet u128 {
-    zchar[00] f32a,
-}")).
-Eval vm_compute in ("<<<M2652>>>" ++ check (runes_of_ascii "MetaData M { u8 x @lengthOf(y), }")).
-Eval vm_compute in ("<<<M3944>>>" ++ check (runes_of_ascii "packet A {
-    u8 x `d" ++ [11]%N ++ runes_of_ascii "`,// c" ++ [11]%N ++ runes_of_ascii "
-}")).
-Eval vm_compute in ("<<<M3072>>>" ++ check (runes_of_ascii "packet A {
- u8 x `d" ++ [160]%N ++ runes_of_ascii "`, // c" ++ [160]%N ++ runes_of_ascii "
-}")).
-Eval vm_compute in ("<<<M1273>>>" ++ check (runes_of_ascii "packet
-    repeatCount
-{  }
-")).
-Eval vm_compute in ("<<<M3928>>>" ++ check (runes_of_ascii "packet u8x {
-    int8 As,
-}")).
-Eval vm_compute in ("<<<M2757>>>" ++ check (runes_of_ascii "true int32 packet [ match")).
-Eval vm_compute in ("<<<M4555>>>" ++ check (runes_of_ascii "
-
-  // trailing space 
-")).
-Eval vm_compute in ("<<<M2648>>>" ++ check (runes_of_ascii "MetaData M { x y z, }")).
-Eval vm_compute in ("<<<M4340>>>" ++ check (runes_of_ascii "
-packet
-	falsey { }")).
-Eval vm_compute in ("<<<M3475>>>" ++ check (runes_of_ascii "MetaData o
-// c
-{ }")).
-Eval vm_compute in ("<<<M3086>>>" ++ check (runes_of_ascii "// c" ++ [8192]%N ++ runes_of_ascii "
+Eval vm_compute in ("<<<M2788>>>" ++ check (runes_of_ascii "20eb,uu[8$`5hB(bTQC<")).
+Eval vm_compute in ("<<<M3125>>>" ++ check (runes_of_ascii "packet A {
+}
+// c 	")).
+Eval vm_compute in ("<<<M3081>>>" ++ check (runes_of_ascii "// c" ++ [5760]%N ++ runes_of_ascii "
 packet A {
 }")).
-Eval vm_compute in ("<<<M1690>>>" ++ check (runes_of_ascii "options { trueish")).
+Eval vm_compute in ("<<<M956>>>" ++ check (runes_of_ascii "packet
+Z9_  {  }
+")).
 Eval vm_compute in ("<<<M348>>>" ++ check (runes_of_ascii "packet i64_ { }
 ")).
 Eval vm_compute in ("<<<M2570>>>" ++ check (runes_of_ascii "packet A { x }")).
-Eval vm_compute in ("<<<M4246>>>" ++ check (runes_of_ascii "
-
-  // c" ++ [160]%N ++ runes_of_ascii "
- 
-")).
-Eval vm_compute in ("<<<M2483>>>" ++ check (runes_of_ascii "@leftPadx")).
-Eval vm_compute in ("<<<M2449>>>" ++ check (runes_of_ascii "trueish")).
-Eval vm_compute in ("<<<M2805>>>" ++ check (runes_of_ascii "as f64")).
-Eval vm_compute in ("<<<M3084>>>" ++ check (runes_of_ascii "// c" ++ [8192]%N)).
-Eval vm_compute in ("<<<M2539>>>" ++ check (runes_of_ascii "A1b2")).
-Eval vm_compute in ("<<<M2533>>>" ++ check (runes_of_ascii "a.b")).
-Eval vm_compute in ("<<<M2538>>>" ++ check (runes_of_ascii "1_")).
+Eval vm_compute in ("<<<M2844>>>" ++ check ([65533; 1256; 65533; 0; 65533; 7; 65533]%N ++ runes_of_ascii "1" ++ [16]%N ++ runes_of_ascii "wI" ++ [4]%N)).
+Eval vm_compute in ("<<<M2729>>>" ++ check (runes_of_ascii "6)@""I`81R")).
+Eval vm_compute in ("<<<M2492>>>" ++ check (runes_of_ascii "@tag(1)")).
+Eval vm_compute in ("<<<M2431>>>" ++ check (runes_of_ascii "char_")).
+Eval vm_compute in ("<<<M3129>>>" ++ check (runes_of_ascii "// c" ++ [8203]%N)).
+Eval vm_compute in ("<<<M2769>>>" ++ check (runes_of_ascii "int8")).
+Eval vm_compute in ("<<<M2680>>>" ++ check (runes_of_ascii "`d`")).
+Eval vm_compute in ("<<<M2455>>>" ++ check (runes_of_ascii "a")).
